@@ -1,30 +1,75 @@
 """C08 — goal-region membership is decided correctly.
-model: lean/CRModel/Goal.lean (+ Interval.lean); theorems: lean/CRProps/C08.lean."""
+model: lean/CRModel/Goal.lean (+ Interval.lean); theorems: lean/CRProps/C08.lean.
+
+A case is a HISTORY on one goal region:  {"goals": [goal spec, ...], "lan_mode": ..., "pp": {...}, "steps": [step, ...]}
+(the old format {"kind", "goals", "states"} is still read: corpus / earlier replays).  Steps: queries (is_reached through the goal
+region, the planning problem or the planning problem set; goal_reached on duck-typed and real trajectories), edits of the goal
+region (state_list setter / in-place list edits, attribute and interval-end setters, shape setters, translate_rotate on all three
+levels, goal setter), operations that fail, read-only operations.  The oracle follows the history on the SPECS (never on the
+objects) and judges every query from the property text; the model gets the goal region as the library stores it at that moment.
+"""
+import copy
 import glob
 import json
 import math
 import os
+import pickle
 from fractions import Fraction
 
 import geom
-from common import CORPUS_DIR, call, frac, rat
+from common import CORPUS_DIR, InfraError, call, frac, rat
 
-RULE = ("goal regions of 1..4 goal states, every subset of {position, orientation, velocity} constraints (time always), positions: "
-        "rectangle / circle / polygon / shape group / lanelet goal (ShapeGroup of lanelet polygons + lanelets_of_goal_position), "
-        "angle intervals short / long (>pi) / wrapping +-pi, velocity and time intervals with the state's value at the ends, "
-        "inside, outside, int and float; states of classes KS, KST, ST, STD, MB, ExtendedPM, Initial (stored orientation) and PM "
-        "(vx, vy in all four quadrants incl. exact 3-4-5 triples); trajectories of 1..8 such states for goal_reached. "
-        "distinct = canonical JSON; non-trivial = every case (each carries >= 1 boundary or wrap value by construction)")
-ASSUMPTIONS = ["shape membership of the state's position (contains_point) is a parameter of the model (answer of the implementation); "
-               "the oracle recomputes it with exact rational geometry, excluding points within 1e-9 of a non-exact boundary",
-               "hypot/atan2 are parameters of the model (math.hypot / math.atan2 of the state's velocity components)",
+RULE = ("histories on goal regions of 0..4 goal states (0: correspondence only), every subset of {position, orientation, velocity} "
+        "constraints (time always), goal states of every State class that can hold them, intervals built by constructor / setters / "
+        "interval arithmetic / out-of-range normalisation, int / float / numpy-typed ends, equal ends, negative velocities; positions: "
+        "rectangle / circle / polygon (closed ring, reversed ring, default centre / orientation, int arrays) / shape group (nested, empty, "
+        "repeated member) / lanelet goal; lanelets_of_goal_position omitted / None / {} / partial / extra; states of all 14 State "
+        "classes incl. CustomState with extra and missing attributes, built by constructor / assignment / add_attribute / "
+        "convert_state_to_state / fill_with_defaults / deepcopy, values int / float / np.int64 / np.int32 / np.float64 / np.float32, "
+        "positions as float64 / int / float32 arrays; steps: is_reached via GoalRegion / PlanningProblem.goal / PlanningProblemSet, "
+        "repeated queries on one state object, goal_reached on trajectories of 0..8 states (duck-typed and real Trajectory, reaching "
+        "state first / last / several / none, called before or after the single queries), state_list setter (new, same object, copy) "
+        "and in-place list edits, attribute replacement / removal / interval-end setters, shape setters, translate_rotate on goal / "
+        "problem / set level (pure translations exact and predicted by the model, rotations judged with a band), goal setter, "
+        "deepcopy / pickle swaps, failing operations (invalid goal list, int time step, invalid angle, interval-end assertion) followed "
+        "by queries, read-only operations (hash, ==, str, used_attributes) before queries. "
+        "distinct = canonical JSON; non-trivial = every case (each query state sits at / near a constraint boundary of a goal state)")
+ASSUMPTIONS = ["shape membership of the state's position (contains_point) is computed by the C06 shape model on the shapes read back "
+               "from the goal region; the oracle recomputes it from the case's own specs with exact rational geometry, excluding "
+               "points within 1e-9 of a non-exact boundary (1e-8 after a rotation: the rotated boundary is only known up to rounding)",
+               "hypot/atan2 are parameters of the model (np.linalg.norm / math.atan2 of the state's velocity components)",
                "values within 1e-9 of an interval end (mod 2pi for angles) are excluded from the oracle when they come out of float "
-               "arithmetic (hypot, atan2); exact end-point values are kept"]
+               "arithmetic (hypot, atan2, rotated intervals); exact end-point values are kept; np.float32-typed values within 1e-5 "
+               "(relative) of an end are excluded (numpy compares and subtracts them in single precision)",
+               "a goal region without goal states, states without the attributes a goal state constrains (documented ValueError) and "
+               "trajectories containing such states are outside the quantifier: correspondence with the model only, no oracle verdict",
+               "a goal state that does not pass GoalRegion's validation (exact int time step, attributes other than the four) is "
+               "rejected at construction and outside the quantifier; it appears only as a failing operation inside histories"]
 EXTRA_MODULES = ['CRProps.T16']      # translator tie: Gen.Src (regenerated from /repo every run) = hand model
-REQUIRED_BUCKETS = ["state/PMState", "state/KSState", "goal/lanelet", "goal/long-angle", "goal/multi", "int-values",
-                    "reached/true", "reached/false", "traj/reached", "traj/not-reached", "pm/quadrant2", "pm/quadrant3"]
+REQUIRED_BUCKETS = ["state/PMState", "state/KSState", "state/KSTState", "state/STState", "state/STDState", "state/MBState",
+                    "state/ExtendedPMState", "state/InitialState", "state/CustomState", "state/LongitudinalState",
+                    "state/LateralState", "state/InputState", "state/PMInputState", "state/LKSInputState",
+                    "goal/lanelet", "goal/long-angle", "goal/multi", "goal/empty-list", "goal/vel-equal-ends", "goal/vel-negative",
+                    "goal/time-single", "goal/cls/CustomState", "goal/cls/dataclass", "goal/ori-how/setters", "goal/ori-how/outside",
+                    "goal/ori-how/shift", "goal/ori-how/scaled", "goal/iv-how/setters", "goal/iv-how/arith", "goal/np-ends",
+                    "shape/nested-group", "shape/empty-group", "shape/closed-ring", "shape/default-centre", "shape/int-array",
+                    "lan/omitted", "lan/none", "lan/empty", "lan/extra", "lan/auto",
+                    "int-values", "num/i64", "num/i32", "num/f64", "num/f32", "pos/int-array", "pos/f32-array",
+                    "state-how/assign", "state-how/custom_add", "state-how/convert", "state-how/fill", "state-how/deepcopy",
+                    "state/vy-without-orientation", "state/vy-with-orientation", "state/custom-extra",
+                    "reached/true", "reached/false", "reached/error", "err/first", "err/last", "err/middle",
+                    "traj/reached", "traj/not-reached", "traj/empty", "traj/real", "traj/fresh", "traj/first-only", "traj/last-only",
+                    "traj/several", "traj/with-error", "via/goal", "via/pp", "via/pps", "pm/quadrant2", "pm/quadrant3",
+                    "hist/requery", "hist/set_list/setter_new", "hist/set_list/setter_same", "hist/set_list/append",
+                    "hist/set_list/pop", "hist/set_attr/assign", "hist/set_attr/remove", "hist/set_attr/ends",
+                    "hist/pos_edit", "hist/tr/translation", "hist/tr/rotation", "hist/tr/level/goal", "hist/tr/level/pp",
+                    "hist/tr/level/pps", "hist/set_goal", "hist/swap/deepcopy", "hist/swap/pickle", "hist/fail/bad_list",
+                    "hist/fail/int_time", "hist/fail/bad_angle", "hist/fail/bad_end", "hist/fail-then-query", "hist/ro/hash",
+                    "hist/ro/eq", "hist/ro/str", "hist/query-after-edit", "corr/moved", "file/xml", "file/pb"]
 
 BAND = Fraction(1, 10 ** 9)
+BAND_INEXACT = Fraction(1, 10 ** 8)
+BAND32 = Fraction(1, 10 ** 5)
 
 
 def _tau_eps():
@@ -33,13 +78,453 @@ def _tau_eps():
     return TWO_PI, getattr(AngleInterval, "_TOLERANCE", 0.0)
 
 
-STATE_CLASSES = ["KSState", "KSTState", "STState", "STDState", "MBState", "ExtendedPMState", "InitialState", "PMState"]
+# ------------------------------------------------------------------------------------------------ dimension table
+# Every constructor parameter, settable attribute and public operation of the classes the property anchors, with how the
+# generator varies it (or why it cannot matter).  check_dimensions() compares the table with the working tree on every run: a
+# parameter / member / state class / state field the table does not know => exit 2 (the generator has to be extended first).
+
+V = "varied: "
+N = "not varied: "
+DIMENSIONS = {
+    "GoalRegion": {
+        "ctor": {
+            "state_list": V + "0..4 goal states, each any subset of position / orientation / velocity (+ mandatory time), of class "
+                              "CustomState or any dataclass State that has the fields; list object later edited in place",
+            "lanelets_of_goal_position": V + "lan_mode omitted / none / empty / auto (dict for the lanelet goals) / extra (entries "
+                                             "for non-lanelet and out-of-range indices); never read by is_reached"},
+        "members": {
+            "state_list": V + "setter with a new list / the same list object / a copy; in-place append, insert, pop, reverse, "
+                              "item assignment; failing assignment (invalid goal state, int time step) followed by queries",
+            "lanelets_of_goal_position": V + "read (ro step) and re-assigned (immutable: warning only) inside histories",
+            "is_reached": V + "the observation; once or twice per state object, through GoalRegion / PlanningProblem.goal / set",
+            "translate_rotate": V + "tr step on goal level: pure translations (exact; model op is_reached_moved) and rotations",
+            "draw": N + "rendering only, result is not consulted by is_reached (C13/C14 territory)",
+            "__eq__": V + "ro step eq (against a deep copy and against a non-GoalRegion) before queries",
+            "__hash__": V + "ro step hash before queries"}},
+    "PlanningProblem": {
+        "ctor": {
+            "planning_problem_id": V + "0, 1, 7, 10**6",
+            "initial_state": N + "a fixed complete InitialState; goal_reached never reads it (translate_rotate on problem level "
+                                  "moves it along, which is C05's business)",
+            "goal_region": V + "the goal region of the case; replaced through the goal setter (set_goal step)"},
+        "members": {
+            "planning_problem_id": N + "immutable after construction (setter warns)",
+            "initial_state": N + "see ctor",
+            "goal": V + "getter used for via=pp queries; setter in set_goal steps",
+            "goal_reached": V + "the observation on trajectories of 0..8 states, duck-typed holder and real Trajectory",
+            "translate_rotate": V + "tr step on problem level",
+            "draw": N + "rendering only",
+            "__eq__": V + "ro step eq", "__hash__": V + "ro step hash"}},
+    "PlanningProblemSet": {
+        "ctor": {"planning_problem_list": V + "omitted (+ add_planning_problem) or [decoy problem, problem] in both orders"},
+        "members": {
+            "planning_problem_dict": V + "read by via=pps queries",
+            "add_planning_problem": V + "pps built by add",
+            "find_planning_problem_by_id": V + "via=pps queries and goal_reached",
+            "translate_rotate": V + "tr step on set level (moves the decoy problem as well)",
+            "draw": N + "rendering only",
+            "__eq__": V + "ro step eq", "__hash__": V + "ro step hash"}},
+    "Interval": {
+        "ctor": {"start": V + "int / float / np.int64 / np.float64; equal to end; negative (velocity)", "end": V + "see start"},
+        "members": {
+            "start": V + "setter after construction (how=setters) and on a live goal state (set_attr ends, fail bad_end)",
+            "end": V + "see start",
+            "contains": V + "called by is_reached with the state's value (number)",
+            "__contains__": N + "Interval.__contains__ delegates to contains; is_reached calls contains (C16 covers the operator)",
+            "__add__": V + "how=arith add", "__sub__": V + "how=arith sub", "__mul__": V + "how=arith mul / ori scaled",
+            "__truediv__": V + "how=arith div",
+            "__round__": N + "rounding changes the end points by design; construction through it is C16's",
+            "intersection": N + "C16; produces an Interval by the plain constructor",
+            "overlaps": N + "C16, not used by goal checks", "length": N + "C16, read-only",
+            "__eq__": V + "through GoalRegion.__eq__ (ro eq)", "__hash__": V + "through GoalRegion.__hash__ (ro hash)",
+            "__iter__": N + "not used by goal checks", "__str__": V + "ro str",
+            "__gt__": N + "C16, not used by goal checks", "__lt__": N + "C16, not used by goal checks"}},
+    "AngleInterval": {
+        "ctor": {"start": V + "short / long (> pi) / wrapping +-pi / zero length; given outside [-2pi, 2pi] (how=outside)",
+                 "end": V + "see start"},
+        "members": {
+            "start": V + "how=setters; set_attr ends", "end": V + "see start",
+            "contains": V + "called by is_reached with int / float / numpy-typed headings",
+            "__contains__": V + "reached through contains(number)",
+            "intersect": N + "raises NotImplementedError by design"}},
+    "State": {
+        "ctor": {"time_step": V + "int / float / np.int64 / np.int32 exact values for checked states; Interval for goal states"},
+        "members": {
+            "time_step": V + "see ctor",
+            "attributes": V + "read by is_reached; ro step on goal states",
+            "used_attributes": V + "decides the documented ValueError: every attribute present / None per class",
+            "has_value": V + "called by is_reached",
+            "is_uncertain_position": N + "not consulted by goal checks", "is_uncertain_orientation": N + "not consulted",
+            "translate_rotate": V + "called by GoalRegion.translate_rotate on every goal state (tr steps)",
+            "convert_state_to_state": V + "state how=convert",
+            "fill_with_defaults": V + "state how=fill",
+            "draw": N + "rendering only",
+            "__eq__": V + "ro eq", "__hash__": V + "ro hash", "__array__": N + "not consulted by goal checks"}},
+    "CustomState": {
+        "ctor": {"attributes": V + "any subset of position / velocity / orientation / velocity_y plus extra attributes "
+                                    "(acceleration, yaw_rate, custom names); attributes explicitly None"},
+        "members": {"add_attribute": V + "state how=custom_add", "set_value": V + "state how=custom_add"}},
+    "PMState": {"members": {"orientation": V + "derived property, not a field: is_reached must compute the heading itself",
+                            "translate_rotate": N + "checked states are not moved (C05); goal states of class PMState carry Shapes"}},
+    "ExtendedPMState": {"members": {"velocity_y": V + "derived property, not a field: the state is treated as kinematic "
+                                                        "(stored velocity / orientation)"}},
+    "Rectangle": {
+        "ctor": {"length": V + "dyadic grid; int", "width": V + "see length", "center": V + "given / omitted (default centre); "
+                 "float or int array", "orientation": V + "0 (given / omitted), pi/2, arbitrary"},
+        "members": {"length": V + "pos_edit step (setter on the live goal shape)", "width": V + "pos_edit", "center": V + "pos_edit",
+                    "orientation": V + "pos_edit", "contains_point": V + "called by is_reached",
+                    "translate_rotate": V + "tr steps"}},
+    "Circle": {
+        "ctor": {"radius": V + "dyadic grid; int", "center": V + "given / omitted"},
+        "members": {"radius": V + "pos_edit", "center": V + "pos_edit", "contains_point": V + "called by is_reached",
+                    "translate_rotate": V + "tr steps"}},
+    "Polygon": {
+        "ctor": {"vertices": V + "3..7 grid vertices, either orientation, ring closed or open, float or int array"},
+        "members": {"vertices": V + "pos_edit (setter on the live goal shape)", "contains_point": V + "called by is_reached",
+                    "translate_rotate": V + "tr steps"}},
+    "ShapeGroup": {
+        "ctor": {"shapes": V + "0..3 members, nested group member, repeated member"},
+        "members": {"shapes": N + "immutable after construction (setter warns); members are edited through their own setters",
+                    "contains_point": V + "called by is_reached", "translate_rotate": V + "tr steps"}},
+    "file readers": {
+        "members": {
+            "CommonRoadFileReader(xml).open": V + "file cases: goal region written and read back, lanelet goals rebuilt from the "
+                                                  "lanelet polygons of the network in the file (GoalRegionFactory / StateFactory)",
+            "CommonRoadFileReader(protobuf).open": V + "file cases with fmt=pb"}},
+}
+# members of the shape classes that cannot influence contains_point (export / rendering / comparison: C06, C12)
+SHAPE_OTHER = {"draw", "shapely_object", "rotate_translate_local", "vertices", "center", "__eq__", "__hash__", "__str__"}
+
+# every State class of commonroad.scenario.state with its dataclass fields (CustomState: free)
+STATE_FIELDS = {
+    "InitialState": ["time_step", "position", "orientation", "velocity", "acceleration", "yaw_rate", "slip_angle"],
+    "PMState": ["time_step", "position", "velocity", "velocity_y"],
+    "ExtendedPMState": ["time_step", "position", "velocity", "orientation", "acceleration"],
+    "KSState": ["time_step", "position", "steering_angle", "velocity", "orientation"],
+    "KSTState": ["time_step", "position", "steering_angle", "velocity", "orientation", "hitch_angle"],
+    "STState": ["time_step", "position", "steering_angle", "velocity", "orientation", "slip_angle", "yaw_rate"],
+    "STDState": ["time_step", "position", "steering_angle", "velocity", "orientation", "slip_angle", "yaw_rate",
+                 "front_wheel_angular_speed", "rear_wheel_angular_speed"],
+    "MBState": ["time_step", "position", "steering_angle", "velocity", "orientation", "yaw_rate", "roll_angle", "roll_rate",
+                "pitch_angle", "pitch_rate", "velocity_y", "position_z", "velocity_z", "roll_angle_front", "roll_rate_front",
+                "velocity_y_front", "position_z_front", "velocity_z_front", "roll_angle_rear", "roll_rate_rear", "velocity_y_rear",
+                "position_z_rear", "velocity_z_rear", "left_front_wheel_angular_speed", "right_front_wheel_angular_speed",
+                "left_rear_wheel_angular_speed", "right_rear_wheel_angular_speed", "delta_y_f", "delta_y_r"],
+    "LongitudinalState": ["time_step", "longitudinal_position", "velocity", "acceleration", "jerk"],
+    "LateralState": ["time_step", "lateral_position", "orientation", "curvature", "curvature_rate"],
+    "InputState": ["time_step", "steering_angle_speed", "acceleration"],
+    "PMInputState": ["time_step", "acceleration", "acceleration_y"],
+    "LKSInputState": ["time_step", "jerk_dot", "kappa_dot_dot"],
+    "CustomState": ["time_step"],
+}
+STATE_CLASSES = list(STATE_FIELDS)
+KEY_OF = {"position": "pos", "velocity": "v", "orientation": "th", "velocity_y": "vy"}
+ATTR_OF = {v: k for k, v in KEY_OF.items()}
+_DIM_CHECKED = [False]
+
+
+def _members(C):
+    """public members and operator methods a class defines itself"""
+    import inspect
+    out = []
+    for k, v in vars(C).items():
+        if not (inspect.isfunction(v) or isinstance(v, (property, classmethod, staticmethod))):
+            continue
+        if k.startswith("_") and not (k.startswith("__") and k.endswith("__")):
+            continue
+        if k in ("__init__", "__repr__", "__post_init__"):
+            continue
+        out.append(k)
+    return out
+
+
+def check_dimensions():
+    if _DIM_CHECKED[0]:
+        return
+    import dataclasses
+    import inspect
+    import commonroad.scenario.state as S
+    from commonroad.common.util import AngleInterval, Interval
+    from commonroad.geometry.shape import Circle, Polygon, Rectangle, ShapeGroup
+    from commonroad.planning.goal import GoalRegion
+    from commonroad.planning.planning_problem import PlanningProblem, PlanningProblemSet
+    classes = {"GoalRegion": GoalRegion, "PlanningProblem": PlanningProblem, "PlanningProblemSet": PlanningProblemSet,
+               "Interval": Interval, "AngleInterval": AngleInterval, "State": S.State, "CustomState": S.CustomState,
+               "PMState": S.PMState, "ExtendedPMState": S.ExtendedPMState, "Rectangle": Rectangle, "Circle": Circle,
+               "Polygon": Polygon, "ShapeGroup": ShapeGroup}
+    problems = []
+    for name, C in classes.items():
+        row = DIMENSIONS[name]
+        if "ctor" in row:
+            sig = [p for p in inspect.signature(C.__init__).parameters if p != "self"]
+            if name == "State":
+                sig = [f.name for f in dataclasses.fields(S.State)]
+            for p in sig:
+                if p not in row["ctor"]:
+                    problems.append(f"{name}.__init__ has a parameter '{p}' the dimension table does not know")
+        other = SHAPE_OTHER if name in ("Rectangle", "Circle", "Polygon", "ShapeGroup") else set()
+        for k in _members(C):
+            if k not in row["members"] and k not in other and k not in STATE_FIELDS.get(name, []):
+                problems.append(f"{name}.{k} is a public member the dimension table does not know")
+    found = {n: c for n, c in vars(S).items() if inspect.isclass(c) and issubclass(c, S.State) and c is not S.State}
+    for n, c in found.items():
+        if n not in STATE_FIELDS:
+            problems.append(f"state class {n} is not in the table of state classes")
+            continue
+        fields = [f.name for f in dataclasses.fields(c)]
+        for f in fields:
+            if f not in STATE_FIELDS[n]:
+                problems.append(f"{n} has a field '{f}' the table of state classes does not know")
+        for k in _members(c):
+            if n not in DIMENSIONS or k not in DIMENSIONS[n]["members"]:
+                problems.append(f"{n}.{k} is a public member the dimension table does not know")
+    for n in STATE_FIELDS:
+        if n not in found:
+            problems.append(f"state class {n} of the table does not exist in commonroad.scenario.state")
+    if problems:
+        raise InfraError("C08 dimension table is out of date (extend DIMENSIONS / STATE_FIELDS and the generator): " + "; ".join(problems))
+    _DIM_CHECKED[0] = True
+
+
+def dimension_count():
+    return sum(len(r.get("ctor", {})) + len(r["members"]) for r in DIMENSIONS.values()) + sum(len(v) for v in STATE_FIELDS.values())
+
+
+# ------------------------------------------------------------------------------------------------ typed numbers
+# a number in a spec is a plain JSON int / float, or {"n": value, "ty": "i64" | "i32" | "f64" | "f32"} (numpy scalar types)
+
+def num(x):
+    if isinstance(x, dict):
+        import numpy as np
+        return {"i64": np.int64, "i32": np.int32, "f64": np.float64, "f32": np.float32}[x["ty"]](x["n"])
+    return x
+
+
+def val(x):
+    return x["n"] if isinstance(x, dict) else x
+
+
+def ty(x):
+    return x["ty"] if isinstance(x, dict) else ("i" if isinstance(x, int) else "f")
+
+
+def fv(x):
+    return frac(val(x))
+
+
+def typed(r, x, p=0.12, allow32=True):
+    """wrap a plain number into a numpy-typed one now and then (f32 only when exactly representable)"""
+    if isinstance(x, dict) or r.random() >= p:
+        return x
+    if isinstance(x, int):
+        return {"n": x, "ty": r.choice(["i64", "i64", "i32"])}
+    import numpy as np
+    if allow32 and r.random() < 0.5:
+        return {"n": float(np.float32(x)), "ty": "f32"}
+    return {"n": x, "ty": "f64"}
+
+
+# ------------------------------------------------------------------------------------------------ shapes
+# geom's spec format plus construction flags: rect "dc" (centre omitted), "do" (orientation omitted); circ "dc"; poly "closed"
+# (first vertex repeated), "rev" (ring reversed); "ints" (int parameters / int arrays); groups may nest, be empty, repeat a member;
+# "inexact": the boundary is only known up to rounding (after a rotation)
+
+def gen_shape_x(r, depth=0):
+    sp = geom.gen_shape(r, kinds=("rect", "circ", "poly", "group") if depth == 0 else ("rect", "circ", "poly"))
+    return decorate_shape(r, sp, depth)
+
+
+def decorate_shape(r, sp, depth=0):
+    k = sp["k"]
+    if k == "rect":
+        if r.random() < 0.12:
+            sp["c"], sp["dc"] = [0.0, 0.0], True
+        if sp["o"] == 0 and r.random() < 0.3:
+            sp["do"] = True
+        if r.random() < 0.12:
+            sp["l"], sp["w"], sp["c"], sp["ints"] = r.randint(1, 10), r.randint(1, 6), [r.randint(-20, 20), r.randint(-20, 20)], True
+            if sp.get("dc"):
+                sp["c"] = [0, 0]
+    elif k == "circ":
+        if r.random() < 0.12:
+            sp["c"], sp["dc"] = [0.0, 0.0], True
+        if r.random() < 0.12:
+            sp["r"], sp["c"], sp["ints"] = r.randint(1, 10), [0, 0] if sp.get("dc") else [r.randint(-20, 20), r.randint(-20, 20)], True
+    elif k == "poly":
+        if r.random() < 0.2:
+            sp["closed"] = True
+        if r.random() < 0.3:
+            sp["rev"] = True
+        if r.random() < 0.1:
+            x, y = r.randint(-20, 20), r.randint(-20, 20)
+            sp["v"], sp["ints"] = r.choice([[[x, y], [x + 4, y], [x + 4, y + 3], [x, y + 3]], [[x, y], [x + 5, y + 1], [x + 2, y + 6]]]), True
+    else:
+        sp["s"] = [decorate_shape(r, s, depth + 1) for s in sp["s"]]
+        roll = r.random()
+        if roll < 0.05:
+            sp["s"] = []
+        elif roll < 0.22 and depth == 0:
+            inner = {"k": "group", "s": [decorate_shape(r, geom.gen_shape(r, kinds=("rect", "circ", "poly")), 2)
+                                         for _ in range(r.randint(1, 2))]}
+            sp["s"].insert(r.randint(0, len(sp["s"])), inner)
+        elif roll < 0.3 and sp["s"]:
+            sp["s"].append(copy.deepcopy(sp["s"][0]))
+    return sp
+
+
+def build_shape_x(sp):
+    import numpy as np
+    from commonroad.geometry.shape import Circle, Polygon, Rectangle, ShapeGroup
+    k = sp["k"]
+    arr = (lambda a: np.array(a, dtype=int)) if sp.get("ints") else (lambda a: np.array(a, dtype=float))
+    if k == "rect":
+        args = [sp["l"], sp["w"]]
+        if sp.get("dc"):
+            return Rectangle(*args) if sp.get("do") else Rectangle(*args, orientation=sp["o"])
+        return Rectangle(*args, arr(sp["c"])) if sp.get("do") else Rectangle(*args, arr(sp["c"]), sp["o"])
+    if k == "circ":
+        return Circle(sp["r"]) if sp.get("dc") else Circle(sp["r"], arr(sp["c"]))
+    if k == "poly":
+        vs = list(sp["v"])
+        if sp.get("rev"):
+            vs = vs[::-1]
+        if sp.get("closed"):
+            vs = vs + [vs[0]]
+        return Polygon(arr(vs))
+    return ShapeGroup([build_shape_x(s) for s in sp["s"]])
+
+
+def tag_shape(ctx, sp):
+    k = sp["k"]
+    if k == "group":
+        if not sp["s"]:
+            ctx.tag("shape/empty-group")
+        for s in sp["s"]:
+            if s["k"] == "group":
+                ctx.tag("shape/nested-group")
+            tag_shape(ctx, s)
+        return
+    if sp.get("closed"):
+        ctx.tag("shape/closed-ring")
+    if sp.get("dc"):
+        ctx.tag("shape/default-centre")
+    if sp.get("ints"):
+        ctx.tag("shape/int-array")
+
+
+def near_boundary(sp, p, band):
+    """p within `band` of the boundary of a primitive spec"""
+    p = (frac(p[0]), frac(p[1]))
+    if sp["k"] == "circ":
+        d2 = (p[0] - frac(sp["c"][0])) ** 2 + (p[1] - frac(sp["c"][1])) ** 2
+        rr = frac(sp["r"])
+        lo = max(Fraction(0), rr - band)
+        return lo * lo <= d2 <= (rr + band) ** 2
+    ring = geom.rect_vertices(sp) if sp["k"] == "rect" else [(frac(x), frac(y)) for x, y in sp["v"]]
+    return geom.point_in_ring(p, ring)[1] <= band * band
+
+
+def pt_in(sp, p):
+    """(member, ambiguous) of point p in the closed set the spec denotes"""
+    if sp["k"] == "group":
+        res = [pt_in(s, p) for s in sp["s"]]
+        sure = any(m and not a for m, a in res)
+        return any(m for m, _ in res), (not sure) and any(a for _, a in res)
+    m, a = geom.point_in_shape(sp, p)
+    if sp.get("inexact"):
+        a = near_boundary(sp, p, BAND_INEXACT)
+    return m, a
+
+
+def points_of(r, sp):
+    """points inside / outside / on the boundary of the spec; something even for an empty group"""
+    def flat(s):
+        return [x for m in s["s"] for x in flat(m)] if s["k"] == "group" else [s]
+    prims = flat(sp)
+    if not prims:
+        return [[r.randint(-320, 320) / 16.0, r.randint(-320, 320) / 16.0]]
+    return geom.interesting_points(r, {"k": "group", "s": prims})
+
+
+def tr_shape(sp, t, a):
+    """the spec after translate_rotate(t, a): exact for a == 0 (grid values), otherwise marked inexact"""
+    k = sp["k"]
+    if k == "group":
+        return {"k": "group", "s": [tr_shape(s, t, a) for s in sp["s"]]}
+    if a == 0:
+        mv = lambda p: [float(frac(p[0]) + frac(t[0])), float(frac(p[1]) + frac(t[1]))]  # noqa
+    else:
+        c, s_ = frac(math.cos(a)), frac(math.sin(a))
+
+        def mv(p):
+            x, y = frac(p[0]) + frac(t[0]), frac(p[1]) + frac(t[1])
+            return [float(c * x - s_ * y), float(s_ * x + c * y)]
+    out = {"k": k}
+    if sp.get("inexact") or a != 0:
+        out["inexact"] = True
+    if k == "rect":
+        o = sp["o"] if a == 0 else float(sp["o"]) + a
+        while o > 2 * math.pi:          # make_valid_orientation
+            o -= 2 * math.pi
+        while o < -2 * math.pi:
+            o += 2 * math.pi
+        out.update(l=sp["l"], w=sp["w"], c=mv(sp["c"]), o=o)
+    elif k == "circ":
+        out.update(r=sp["r"], c=mv(sp["c"]))
+    else:
+        out["v"] = [mv(v) for v in sp["v"]]
+    return out
+
+
+def wire_obj_shape(shape):
+    """the shape as the library stores it, for the model (groups flattened: a group contains what a member contains)"""
+    from commonroad.geometry.shape import Circle, Polygon, Rectangle, ShapeGroup
+
+    def prim(s):
+        if isinstance(s, Rectangle):
+            o = s.orientation
+            c, s_ = (1.0, 0.0) if o == 0 else (math.cos(o), math.sin(o))
+            return {"k": "rect", "l": rat(s.length), "w": rat(s.width), "c": [rat(s.center[0]), rat(s.center[1])], "cos": rat(c),
+                    "sin": rat(s_)}
+        if isinstance(s, Circle):
+            return {"k": "circ", "r": rat(s.radius), "c": [rat(s.center[0]), rat(s.center[1])]}
+        if isinstance(s, Polygon):
+            return {"k": "poly", "v": [[rat(x), rat(y)] for x, y in s.vertices]}
+        raise InfraError(f"C08: unknown shape class {type(s).__name__}")
+
+    def walk(s, out):
+        if isinstance(s, ShapeGroup):
+            for m in s.shapes:
+                walk(m, out)
+        else:
+            out.append(prim(s))
+        return out
+    if isinstance(shape, ShapeGroup):
+        return {"k": "group", "s": walk(shape, [])}
+    return prim(shape)
+
+
+# ------------------------------------------------------------------------------------------------ goal states
+
+def goal_classes(g):
+    """State classes that can hold the goal state's constraints (goal states need not be CustomStates)"""
+    need = {"time_step"} | ({"position"} if "pos" in g else set()) | ({"orientation"} if "ori" in g else set()) \
+        | ({"velocity"} if "vel" in g else set())
+    return [c for c, f in STATE_FIELDS.items() if c != "CustomState" and need <= set(f)]
 
 
 def gen_goal_state(r, allow_lanelet=True):
-    g = {"time": sorted([r.randint(0, 12), r.randint(0, 12)])}
+    a, b = sorted([r.randint(0, 12), r.randint(0, 12)])
+    if r.random() < 0.12:
+        b = a
+    if r.random() < 0.04:
+        a, b = a + 10 ** 6, b + 10 ** 6
+    g = {"time": [a, b]}
     if r.random() < 0.3:
-        g["time"] = [g["time"][0] + 0.0, g["time"][1] + 0.5]
+        g["time"] = [a + 0.0, b + 0.5]
+    g["time"] = [typed(r, x, 0.06, False) for x in g["time"]]
+    if r.random() < 0.2:
+        g["time_how"] = r.choice(["setters", "add", "sub", "mul", "div"])
     if r.random() < 0.6:
         if allow_lanelet and r.random() < 0.25:
             # lanelet goal: union of rectangles/polygons standing for lanelet polygons
@@ -47,191 +532,384 @@ def gen_goal_state(r, allow_lanelet=True):
             g["pos"] = {"k": "group", "s": [geom.gen_shape(r, kinds=("poly", "rect"), depth=1, exact=True) for _ in range(n)]}
             g["lanelets"] = [r.randint(1, 50) for _ in range(n)]
         else:
-            g["pos"] = geom.gen_shape(r)
+            g["pos"] = gen_shape_x(r)
     if r.random() < 0.6:
-        pi = math.pi
-        length = r.choice([0.0, 0.2, 1.0, pi - 1e-6, pi, pi + 0.2, 4.0, 5.5, 6.0, r.uniform(0, 2 * pi - 1e-6), 1, 3])
-        start = r.choice([-pi, pi - 0.1, -0.1, 0.0, 3.0, -3.3, r.uniform(-2 * pi, 2 * pi - float(length)), -1, 0, 2])
-        start = max(-2 * pi, min(start, 2 * pi - float(length)))
-        g["ori"] = [start, start + length]
+        g["ori"] = gen_ori(r)
+        if r.random() < 0.35:
+            # the end-point setters take angles within [-2pi, 2pi] only (start + length may exceed 2pi by an ulp)
+            inside = -2 * math.pi <= g["ori"][0] and g["ori"][1] <= 2 * math.pi
+            g["ori_how"] = r.choice((["setters", "setters2"] if inside else []) + ["outside", "shift", "scaled"])
     if r.random() < 0.6:
-        a, b = sorted([r.choice([0, 5, 5.0, 10, 12.5, 20, r.randint(0, 400) / 16.0]), r.choice([5, 5.0, 13, 25, 30.5, r.randint(0, 400) / 16.0])],
-                      key=float)
-        g["vel"] = [a, b]
+        g["vel"] = gen_vel(r)
+        if r.random() < 0.2:
+            g["vel_how"] = r.choice(["setters", "add", "sub", "mul", "div"])
+    if r.random() < 0.3:
+        cs = goal_classes(g)
+        if cs:
+            g["cls"] = r.choice(cs)
+    elif r.random() < 0.15:
+        g["none_attrs"] = r.sample(["position", "velocity", "orientation", "acceleration", "velocity_y"], r.randint(1, 2))
     return g
 
 
-def gen_state(r, goals):
+def gen_ori(r):
+    pi = math.pi
+    length = r.choice([0.0, 0.2, 1.0, pi - 1e-6, pi, pi + 0.2, 4.0, 5.5, 6.0, r.uniform(0, 2 * pi - 1e-6), 1, 3])
+    start = r.choice([-pi, pi - 0.1, -0.1, 0.0, 3.0, -3.3, r.uniform(-2 * pi, 2 * pi - float(length)), -1, 0, 2])
+    start = max(-2 * pi, min(start, 2 * pi - float(length)))
+    return [start, start + length]
+
+
+def gen_vel(r):
+    roll = r.random()
+    if roll < 0.12:
+        a = r.choice([0, 5, 5.0, 12.5, r.randint(0, 400) / 16.0])
+        return [a, a]
+    if roll < 0.22:
+        return r.choice([[-8, -2], [-3.5, 4.0], [-5.0, 0], [-10.0, -10.0], [-1, 30]])
+    if roll < 0.26:
+        return [r.choice([0, 1.0e6]), 1.0e6 + r.randint(0, 64) / 16.0]
+    a, b = sorted([r.choice([0, 5, 5.0, 10, 12.5, 20, r.randint(0, 400) / 16.0]), r.choice([5, 5.0, 13, 25, 30.5, r.randint(0, 400) / 16.0])],
+                  key=float)
+    return [typed(r, a, 0.06, False), typed(r, b, 0.06, False)]
+
+
+def build_interval(ends, how):
+    """a plain Interval with the given ends, reached by the given construction path (all paths exact on the grid values)"""
+    from commonroad.common.util import Interval
+    a, b = num(ends[0]), num(ends[1])
+    if how == "setters":
+        iv = Interval(a - 3, b + 2)
+        iv.start = a
+        iv.end = b
+        return iv
+    if how == "add":
+        return Interval(a - 1, b - 1) + 1
+    if how == "sub":
+        return Interval(a + 1, b + 1) - 1
+    if how == "mul":
+        return Interval(a / 2, b / 2) * 2 if all(isinstance(val(x), float) for x in ends) else Interval(a, b) * 1
+    if how == "div":
+        return Interval(a * 2, b * 2) / 2
+    return Interval(a, b)
+
+
+def build_angle(ends, how):
+    from commonroad import TWO_PI
+    from commonroad.common.util import AngleInterval
+    a, b = num(ends[0]), num(ends[1])
+    if how == "setters":
+        iv = AngleInterval(a, a)
+        iv.end = b
+        return iv
+    if how == "setters2":
+        iv = AngleInterval(b, b)
+        iv.start = a
+        return iv
+    if how == "outside":
+        k = 2 if a < 0 else -2
+        return AngleInterval(a + k * TWO_PI, b + k * TWO_PI)
+    if how == "shift":
+        return AngleInterval(a - 0.5, b - 0.5) + 0.5
+    if how == "scaled":
+        return AngleInterval(a / 2, b / 2) * 2
+    return AngleInterval(a, b)
+
+
+def build_goal_state(g):
+    import commonroad.scenario.state as S
+    kw = {"time_step": build_interval(g["time"], g.get("time_how"))}
+    if "pos" in g:
+        kw["position"] = build_shape_x(g["pos"])
+    if "ori" in g:
+        kw["orientation"] = build_angle(g["ori"], g.get("ori_how"))
+    if "vel" in g:
+        kw["velocity"] = build_interval(g["vel"], g.get("vel_how"))
+    cls = g.get("cls", "CustomState")
+    if cls == "CustomState":
+        for n in g.get("none_attrs", []):
+            kw.setdefault(n, None)
+    return getattr(S, cls)(**kw)
+
+
+def lanelet_arg(goals, mode):
+    """(pass the argument?, value) of lanelets_of_goal_position"""
+    auto = {i: list(g["lanelets"]) for i, g in enumerate(goals) if "lanelets" in g}
+    if mode == "omitted":
+        return False, None
+    if mode == "none":
+        return True, None
+    if mode == "empty":
+        return True, {}
+    if mode == "extra":
+        d = dict(auto)
+        d.setdefault(0, [3, 1, 3])
+        d[len(goals) + 2] = [7]
+        d[len(goals)] = []
+        return True, d
+    return True, (auto or None)
+
+
+def build_goal(goals, lan_mode="auto"):
+    from commonroad.planning.goal import GoalRegion
+    sts = [build_goal_state(g) for g in goals]
+    give, d = lanelet_arg(goals, lan_mode)
+    return GoalRegion(sts, d) if give else GoalRegion(sts)
+
+
+def tag_goal(ctx, g):
+    if "lanelets" in g:
+        ctx.tag("goal/lanelet")
+    if "ori" in g:
+        if val(g["ori"][1]) - val(g["ori"][0]) > math.pi:
+            ctx.tag("goal/long-angle")
+        if g.get("ori_how"):
+            ctx.tag("goal/ori-how/" + g["ori_how"].rstrip("2"))
+    for k in ("time_how", "vel_how"):
+        if g.get(k):
+            ctx.tag("goal/iv-how/" + ("setters" if g[k] == "setters" else "arith"))
+    if "vel" in g:
+        if fv(g["vel"][0]) == fv(g["vel"][1]):
+            ctx.tag("goal/vel-equal-ends")
+        if fv(g["vel"][0]) < 0:
+            ctx.tag("goal/vel-negative")
+    if fv(g["time"][0]) == fv(g["time"][1]):
+        ctx.tag("goal/time-single")
+    if any(isinstance(x, dict) for k in ("time", "vel", "ori") if k in g for x in g[k]):
+        ctx.tag("goal/np-ends")
+    ctx.tag("goal/cls/CustomState" if g.get("cls", "CustomState") == "CustomState" else "goal/cls/dataclass")
+    if "pos" in g:
+        tag_shape(ctx, g["pos"])
+
+
+# ------------------------------------------------------------------------------------------------ checked states
+# {"cls", "t", ["pos"], ["v"], ["th"], ["vy"], ["extra": {attr: number}], ["none": [attr, ...]], ["how"], ["pos_ty"]}
+# a key that is absent = the attribute is None / does not exist (old format: PMState with "vx", "vy")
+
+CLASS_WEIGHTS = [("PMState", 10), ("KSState", 8), ("CustomState", 8), ("MBState", 6), ("KSTState", 2), ("STState", 4), ("STDState", 2),
+                 ("ExtendedPMState", 4), ("InitialState", 4), ("LongitudinalState", 2), ("LateralState", 2), ("InputState", 1),
+                 ("PMInputState", 1), ("LKSInputState", 1)]
+EXTRA_CUSTOM = ["acceleration", "yaw_rate", "slip_angle", "jerk", "foo_bar"]
+
+
+def norm_state(st):
+    if "vx" in st:
+        st = dict(st)
+        st["v"] = st.pop("vx")
+    return st
+
+
+def gen_state(r, goals, cls=None, complete=False):
     """A state whose values sit at / near the constraint boundaries of a randomly chosen goal state."""
-    g = r.choice(goals)
-    cls = r.choice(STATE_CLASSES + ["PMState", "KSState"])
-    t = r.choice([g["time"][0], g["time"][1], g["time"][0] - 1, g["time"][1] + 1, r.randint(0, 12),
-                  (g["time"][0] + g["time"][1]) / 2])
-    st = {"cls": cls, "t": t}
-    if "pos" in g and r.random() < 0.9:
-        st["pos"] = r.choice(geom.interesting_points(r, g["pos"]))
-    elif r.random() < 0.7:
-        st["pos"] = [r.randint(-320, 320) / 16.0, r.randint(-320, 320) / 16.0]
+    g = r.choice(goals) if goals else {"time": [0, 5]}
+    if cls is None:
+        cls = r.choices([c for c, _ in CLASS_WEIGHTS], [w for _, w in CLASS_WEIGHTS])[0]
+    fields = STATE_FIELDS[cls]
+    has = (lambda a: True) if cls == "CustomState" else (lambda a: a in fields)
+    p_keep = 1.0 if complete else 0.94
+    t0, t1 = val(g["time"][0]), val(g["time"][1])
+    t = r.choice([t0, t1, t0 - 1, t1 + 1, r.randint(0, 12), (t0 + t1) / 2])
+    if isinstance(t, float) and t == int(t) and r.random() < 0.5:
+        t = int(t)
+    st = {"cls": cls, "t": typed(r, t, 0.15, False)}
+    if has("position") and r.random() < p_keep:
+        if "pos" in g and r.random() < 0.9:
+            st["pos"] = r.choice(points_of(r, g["pos"]))
+        elif "pos" in g or r.random() < 0.7 or complete:
+            st["pos"] = [r.randint(-320, 320) / 16.0, r.randint(-320, 320) / 16.0]
     # velocity / orientation targets
     if "vel" in g:
-        v = r.choice([g["vel"][0], g["vel"][1], (g["vel"][0] + g["vel"][1]) / 2, g["vel"][1] + 0.0625, max(0, g["vel"][0] - 0.0625),
-                      r.randint(0, 500) / 16.0])
+        lo, hi = val(g["vel"][0]), val(g["vel"][1])
+        v = r.choice([lo, hi, (lo + hi) / 2, hi + 0.0625, lo - 0.0625, max(0, lo - 0.0625), r.randint(0, 500) / 16.0])
     else:
-        v = r.choice([0, 3, 12.5, r.randint(0, 500) / 16.0])
+        v = r.choice([0, 3, 12.5, -2.5, r.randint(0, 500) / 16.0])
     if "ori" in g:
-        a, b = g["ori"]
+        a, b = val(g["ori"][0]), val(g["ori"][1])
         th = r.choice([a, b, (a + b) / 2, b + 0.01, a - 0.01, a + 2 * math.pi, b - 2 * math.pi, r.uniform(-6.2, 6.2),
                        r.randint(-6, 6), (a + b) / 2 + math.pi])
     else:
         th = r.choice([0.0, 1.0, -2.5, r.uniform(-6.2, 6.2), 2])
     if isinstance(th, float):
         th = max(-2 * math.pi, min(2 * math.pi, th))
-    if cls == "PMState":
-        # vx, vy: exact Pythagorean directions or polar from (v, th)
+    want_v = has("velocity") and r.random() < p_keep
+    want_th = has("orientation") and r.random() < (p_keep if cls != "CustomState" else 0.6)
+    want_vy = has("velocity_y") and (cls == "PMState" or r.random() < 0.45) and (r.random() < p_keep or complete)
+    if want_vy and not want_th:
+        # the heading comes from the velocity vector: exact Pythagorean directions or polar from (v, th)
         if r.random() < 0.4:
             a3, b4 = r.choice([(3, 4), (4, 3), (5, 12), (8, 15), (0, 1), (1, 0)])
             sx, sy = r.choice([1, -1]), r.choice([1, -1])
             k = r.choice([1, 2, 0.5, float(v) / math.hypot(a3, b4) if float(v) > 0 else 1.0])
-            st["vx"], st["vy"] = sx * a3 * k, sy * b4 * k
+            vx, vy = sx * a3 * k, sy * b4 * k
         else:
             vv = float(v) if float(v) > 0 else 1.0
-            st["vx"], st["vy"] = vv * math.cos(th), vv * math.sin(th)
+            vx, vy = vv * math.cos(th), vv * math.sin(th)
+        if want_v:
+            st["v"] = typed(r, vx)
+        st["vy"] = typed(r, vy)
     else:
-        st["v"] = v
-        st["th"] = th
-        if cls == "MBState" and r.random() < 0.5:
-            st["vy"] = r.choice([0.0, 0.5, -1.0])
+        if want_v:
+            st["v"] = typed(r, v)
+        if want_th:
+            st["th"] = typed(r, th)
+        if want_vy:
+            st["vy"] = typed(r, r.choice([0.0, 0.5, -1.0, 3, v]))
+    if "pos" in st:
+        x, y = st["pos"]
+        roll = r.random()
+        if roll < 0.07:
+            import numpy as np
+            st["pos"], st["pos_ty"] = [float(np.float32(x)), float(np.float32(y))], "f32"
+        elif roll < 0.14 or (roll < 0.5 and x == int(x) and y == int(y)):
+            st["pos"], st["pos_ty"] = [int(round(x)), int(round(y))], "i"
+    others = EXTRA_CUSTOM if cls == "CustomState" else [f for f in fields if f not in KEY_OF and f != "time_step"]
+    if others and r.random() < 0.4:
+        st["extra"] = {n: r.choice([0.0, 1, -0.25, 2.5]) for n in r.sample(others, min(len(others), r.randint(1, 2)))}
+    if cls == "CustomState" and r.random() < 0.3:
+        free = [n for n, k in KEY_OF.items() if k not in st]
+        if free:
+            st["none"] = r.sample(free, r.randint(1, len(free)))
+    if r.random() < 0.4:
+        st["how"] = r.choice(["assign", "fill", "deepcopy", "custom_add" if cls == "CustomState" else "convert"])
     return st
 
 
-def gen_case(ctx):
-    r = ctx.rng
-    goals = [gen_goal_state(r) for _ in range(r.choice([1, 1, 2, 2, 3, 4]))]
-    if r.random() < 0.3:
-        states = [gen_state(r, goals) for _ in range(r.randint(1, 8))]
-        return {"kind": "traj", "goals": goals, "states": states}
-    return {"kind": "state", "goals": goals, "states": [gen_state(r, goals)]}
-
-
-# ------------------------------------------------------------------------------------------------ build real objects
-
-def build_goal(goals):
-    import numpy as np  # noqa
-    from commonroad.common.util import AngleInterval, Interval
-    from commonroad.planning.goal import GoalRegion
-    from commonroad.scenario.state import CustomState
-    sts, lan = [], {}
-    for i, g in enumerate(goals):
-        kw = {"time_step": Interval(g["time"][0], g["time"][1])}
-        if "pos" in g:
-            kw["position"] = geom.build_shape(g["pos"])
-            if "lanelets" in g:
-                lan[i] = list(g["lanelets"])
-        if "ori" in g:
-            kw["orientation"] = AngleInterval(g["ori"][0], g["ori"][1])
-        if "vel" in g:
-            kw["velocity"] = Interval(g["vel"][0], g["vel"][1])
-        sts.append(CustomState(**kw))
-    return GoalRegion(sts, lan or None)
+def state_kwargs(st):
+    import numpy as np
+    kw = {"time_step": num(st["t"])}
+    if "pos" in st:
+        kw["position"] = np.array(st["pos"], dtype={"i": int, "f32": np.float32}.get(st.get("pos_ty"), float))
+    for k in ("v", "th", "vy"):
+        if k in st:
+            kw[ATTR_OF[k]] = num(st[k])
+    for n, x in st.get("extra", {}).items():
+        kw[n] = x
+    for n in st.get("none", []):
+        kw.setdefault(n, None)
+    return kw
 
 
 def build_state(st):
-    import numpy as np
     import commonroad.scenario.state as S
+    st = norm_state(st)
     cls = getattr(S, st["cls"])
-    kw = {"time_step": st["t"]}
-    if "pos" in st:
-        kw["position"] = np.array(st["pos"], dtype=float)
-    if st["cls"] == "PMState":
-        kw["velocity"], kw["velocity_y"] = st["vx"], st["vy"]
-    else:
-        kw["velocity"], kw["orientation"] = st["v"], st["th"]
-        if "vy" in st:
-            kw["velocity_y"] = st["vy"]
-    return cls(**kw)
+    kw = state_kwargs(st)
+    how = st.get("how", "ctor")
+    if how == "assign":
+        obj = cls()
+        for n, x in kw.items():
+            setattr(obj, n, x)
+        return obj
+    if how == "custom_add" and st["cls"] == "CustomState":
+        obj = cls(time_step=kw["time_step"])
+        for n, x in kw.items():
+            if n != "time_step":
+                obj.add_attribute(n)
+                if x is not None:
+                    obj.set_value(n, x)
+        return obj
+    if how == "convert" and st["cls"] != "CustomState":
+        return S.CustomState(**kw).convert_state_to_state(cls())
+    obj = cls(**kw)
+    if how == "fill":
+        obj.fill_with_defaults()
+    if how == "deepcopy":
+        obj = copy.deepcopy(obj)
+    return obj
 
 
-# ------------------------------------------------------------------------------------------------ model + oracle
-
-def wire_goal_shape(spec):
-    """Shape spec for the model: rationals; a rectangle carries cos / sin of its orientation (parameters)."""
-    k = spec["k"]
-    if k == "rect":
-        c, s_ = (1.0, 0.0) if spec["o"] == 0 else (math.cos(spec["o"]), math.sin(spec["o"]))
-        return {"k": "rect", "l": rat(spec["l"]), "w": rat(spec["w"]), "c": [rat(spec["c"][0]), rat(spec["c"][1])],
-                "cos": rat(c), "sin": rat(s_)}
-    if k == "circ":
-        return {"k": "circ", "r": rat(spec["r"]), "c": [rat(spec["c"][0]), rat(spec["c"][1])]}
-    if k == "poly":
-        return {"k": "poly", "v": [[rat(x), rat(y)] for x, y in spec["v"]]}
-    return {"k": "group", "s": [wire_goal_shape(x) for x in spec["s"]]}
+def effective(st):
+    """the four attributes the goal check can read, as the state object carries them: {"t", "pos", "v", "th", "vy"} (None = absent)"""
+    st = norm_state(st)
+    e = {k: st.get(k) for k in ("t", "pos", "v", "th", "vy")}
+    if st.get("how") == "fill":
+        names = STATE_FIELDS[st["cls"]] if st["cls"] != "CustomState" else list(st.get("none", []))
+        for n, k in KEY_OF.items():
+            if n in names and e[k] is None:
+                e[k] = [0.0, 0.0] if k == "pos" else 0.0
+    return e
 
 
-def model_args(goal_obj, goals, st, state_obj):
-    import numpy as np
-    tau, eps = _tau_eps()
-    gs = []
-    for g, gobj in zip(goals, goal_obj.state_list):
-        gs.append({"time": [rat(gobj.time_step.start), rat(gobj.time_step.end)],
-                   "pos": wire_goal_shape(g["pos"]) if "pos" in g else None,
-                   "ori": [rat(gobj.orientation.start), rat(gobj.orientation.end)] if "ori" in g else None,
-                   "vel": [rat(g["vel"][0]), rat(g["vel"][1])] if "vel" in g else None})
-    pm = st["cls"] == "PMState"
-    vx = st["vx"] if pm else st["v"]
-    vy = st.get("vy")
-    s = {"t": rat(st["t"]), "pos": [rat(st["pos"][0]), rat(st["pos"][1])] if "pos" in st else None,
-         "ori": None if pm else rat(st["th"]), "vel": rat(vx), "velY": None if vy is None else rat(vy)}
-    hyp, at2 = [], []
-    if vy is not None:
-        # the transcendental functions as finite tables: the values the library could evaluate, for the RIGHT and for plausible
-        # WRONG argument pairs; which pair is looked up is the model's choice (speed = hyp vx vy, heading = at2 vy vx)
-        h = float(np.linalg.norm(np.array([vx, vy])))
-        hyp = [[rat(vx), rat(vy), rat(h)], [rat(vy), rat(vx), rat(h)]]
-        at2 = [[rat(vy), rat(vx), rat(math.atan2(vy, vx))]]
-        for (a, b) in ((vy, h), (vx, vy), (h, vy)):
-            if not any(r_[0] == rat(a) and r_[1] == rat(b) for r_ in at2):
-                at2.append([rat(a), rat(b), rat(math.atan2(a, b))])
-    return {"tau": rat(tau), "eps": rat(eps), "goals": gs, "state": s, "hyp": hyp, "at2": at2}
+def tag_state(ctx, st):
+    st = norm_state(st)
+    ctx.tag("state/" + st["cls"])
+    for k in ("t", "v", "th", "vy"):
+        if k in st:
+            if ty(st[k]) == "i":
+                ctx.tag("int-values")
+            elif ty(st[k]) != "f":
+                ctx.tag("num/" + ty(st[k]))
+    if st.get("pos_ty"):
+        ctx.tag("pos/int-array" if st["pos_ty"] == "i" else "pos/f32-array")
+    if st.get("how"):
+        ctx.tag("state-how/" + st["how"])
+    if "vy" in st and "v" in st:
+        if st["cls"] != "PMState":
+            ctx.tag("state/vy-with-orientation" if "th" in st else "state/vy-without-orientation")
+        if "th" not in st:
+            if val(st["v"]) < 0 < val(st["vy"]):
+                ctx.tag("pm/quadrant2")
+            if val(st["v"]) < 0 and val(st["vy"]) < 0:
+                ctx.tag("pm/quadrant3")
+    if st["cls"] == "CustomState" and st.get("extra"):
+        ctx.tag("state/custom-extra")
 
 
-def oracle_one(g, gobj, st):
+# ------------------------------------------------------------------------------------------------ oracle (property text on the specs)
+
+def _is32(*xs):
+    return any(x is not None and ty(x) == "f32" for x in xs)
+
+
+def oracle_one(g, st):
     """'T' / 'F' / '?' (ambiguous: inside a tolerance band) / 'E' (goal constrains an attribute the state lacks)
-    for one goal state, straight from the property text; attribute by attribute."""
+    for one goal state spec and one state spec, straight from the property text; attribute by attribute."""
     tau = frac(_tau_eps()[0])
+    e = effective(st)
+    v, vy, th = e["v"], e["vy"], e["th"]
+    # the documented ValueError: position / velocity missing; heading neither stored nor derivable from (vx, vy)
+    if ("pos" in g and e["pos"] is None) or ("vel" in g and v is None) or ("ori" in g and th is None and (v is None or vy is None)):
+        return "E"
     attrs = []          # (ok, ambiguous) per constrained attribute
-    t = frac(st["t"])
-    attrs.append((frac(g["time"][0]) <= t <= frac(g["time"][1]), False))
+    attrs.append((fv(g["time"][0]) <= fv(e["t"]) <= fv(g["time"][1]), False))
     if "pos" in g:
-        if "pos" not in st:
-            return "E"
-        attrs.append(geom.point_in_shape(g["pos"], st["pos"]))
-    pm = st["cls"] == "PMState"
-    has_vy = "vy" in st
+        attrs.append(pt_in(g["pos"], e["pos"]))
+    vector = v is not None and vy is not None       # speed / heading come from the velocity vector
     if "ori" in g:
-        # the goal's interval as the library normalised it (construction is C16's business)
-        A, B = frac(gobj.orientation.start), frac(gobj.orientation.end)
-        th = frac(math.atan2(st["vy"], st["vx"])) if pm else frac(st["th"])
-        k0 = math.ceil((A - th) / tau)
-        member = th + k0 * tau <= B
-        dist = min(min(abs(th + k * tau - A), abs(th + k * tau - B)) for k in (k0 - 1, k0, k0 + 1))
-        literal_end = (not pm) and th in (A, B)          # literally an end point: closed interval, must be contained
-        attrs.append((member, dist < BAND and not literal_end))
+        A, B = fv(g["ori"][0]), fv(g["ori"][1])
+        derived = th is None
+        h = frac(math.atan2(float(num(vy)), float(num(v)))) if derived else fv(th)
+        k0 = math.ceil((A - h) / tau)
+        member = h + k0 * tau <= B
+        dist = min(min(abs(h + k * tau - A), abs(h + k * tau - B)) for k in (k0 - 1, k0, k0 + 1))
+        if not derived and _is32(th):
+            amb = dist < BAND32 * max(Fraction(1), abs(h))
+        elif derived or g.get("ori_inexact"):
+            amb = dist < BAND
+        else:
+            amb = dist < BAND and h not in (A, B)      # literally an end point: closed interval, must be contained
+        attrs.append((member, amb))
     if "vel" in g:
-        lo, hi = frac(g["vel"][0]), frac(g["vel"][1])
-        if pm or has_vy:
-            vx = st["vx"] if pm else st["v"]
-            sp2 = frac(vx) ** 2 + frac(st["vy"]) ** 2
-            member = sp2 <= hi * hi and (lo <= 0 or lo * lo <= sp2)     # speeds are non-negative: compare squares exactly
+        lo, hi = fv(g["vel"][0]), fv(g["vel"][1])
+        if vector:
+            sp2 = fv(v) ** 2 + fv(vy) ** 2
+            member = hi >= 0 and sp2 <= hi * hi and (lo <= 0 or lo * lo <= sp2)     # speeds are non-negative: compare squares
             amb = False
-            for e in (lo, hi):
-                if sp2 != e * e and abs(sp2 - e * e) <= BAND * max(Fraction(1), abs(e)) * 4:
+            for end in (lo, hi):
+                if end < 0:
+                    continue
+                if sp2 != end * end and abs(sp2 - end * end) <= BAND * max(Fraction(1), abs(end)) * 4:
+                    amb = True
+                if _is32(v, vy) and abs(sp2 - end * end) <= end * end * BAND32 * 4 + BAND32:
                     amb = True
                 # equal squares: still subject to the rounding of hypot unless the root comes out exactly
-                if sp2 == e * e and frac(math.hypot(float(vx), float(st["vy"]))) != abs(e):
+                if sp2 == end * end and frac(math.hypot(float(val(v)), float(val(vy)))) != abs(end):
                     amb = True
             attrs.append((member, amb))
         else:
-            attrs.append((lo <= frac(st["v"]) <= hi, False))
+            x = fv(v)
+            amb = _is32(v) and any(0 < abs(x - end) <= BAND32 * max(Fraction(1), abs(end)) for end in (lo, hi))
+            attrs.append((lo <= x <= hi, amb))
     if any((not ok) and (not a) for ok, a in attrs):
         return "F"
     if all(ok and not a for ok, a in attrs):
@@ -239,101 +917,774 @@ def oracle_one(g, gobj, st):
     return "?"
 
 
-def run_case(ctx, case):
-    goals, states = case["goals"], case["states"]
-    ctx.case(case)
-    try:
-        goal_obj = build_goal(goals)
-    except Exception as e:  # noqa  constructing an admissible goal must not fail
-        ctx.fail(f"C08/GoalRegion.__init__/raises-{type(e).__name__}", f"{e}", case)
+def oracle_state(specs, st):
+    """(want, ambiguous): want = {"ok": bool} | {"err": "value"} | None"""
+    res = [oracle_one(g, st) for g in specs]
+    if "E" in res:
+        return {"err": "value"}, False, res
+    if "T" in res:
+        return {"ok": True}, False, res
+    if all(x == "F" for x in res):
+        return {"ok": False}, False, res
+    return None, True, res
+
+
+# ------------------------------------------------------------------------------------------------ model arguments
+
+def wire_goals(goal_obj):
+    """the goal region as the library stores it right now (intervals and shapes read back from the objects)"""
+    out = []
+    for gs in goal_obj.state_list:
+        pos = getattr(gs, "position", None)
+        ori = getattr(gs, "orientation", None)
+        vel = getattr(gs, "velocity", None)
+        out.append({"time": [rat(gs.time_step.start), rat(gs.time_step.end)],
+                    "pos": None if pos is None else wire_obj_shape(pos),
+                    "ori": None if ori is None else [rat(ori.start), rat(ori.end)],
+                    "vel": None if vel is None else [rat(vel.start), rat(vel.end)]})
+    return out
+
+
+def wire_state(st):
+    import numpy as np
+    e = effective(st)
+    v, vy = e["v"], e["vy"]
+    s = {"t": rat(val(e["t"])), "pos": None if e["pos"] is None else [rat(e["pos"][0]), rat(e["pos"][1])],
+         "ori": None if e["th"] is None else rat(val(e["th"])), "vel": None if v is None else rat(val(v)),
+         "velY": None if vy is None else rat(val(vy))}
+    hyp, at2 = [], []
+    if v is not None and vy is not None:
+        # the transcendental functions as finite tables: the values the library could evaluate, for the RIGHT and for plausible
+        # WRONG argument pairs; which pair is looked up is the model's choice (speed = hyp vx vy, heading = at2 vy vx)
+        nv, nvy = num(v), num(vy)
+        h = float(np.linalg.norm(np.array([nv, nvy])))
+        hyp = [[rat(val(v)), rat(val(vy)), rat(h)], [rat(val(vy)), rat(val(v)), rat(h)]]
+        at2 = [[rat(val(vy)), rat(val(v)), rat(math.atan2(nvy, nv))]]
+        for (a, b) in ((val(vy), h), (val(v), val(vy)), (h, val(vy))):
+            if not any(r_[0] == rat(a) and r_[1] == rat(b) for r_ in at2):
+                at2.append([rat(a), rat(b), rat(math.atan2(a, b))])
+    return s, hyp, at2
+
+
+def pos_ambiguous(specs, st):
+    e = effective(st)
+    return e["pos"] is not None and any("pos" in g and pt_in(g["pos"], e["pos"])[1] for g in specs)
+
+
+# ------------------------------------------------------------------------------------------------ histories: what a step does to the specs
+
+ATTR_NAME = {"time": "time_step", "pos": "position", "ori": "orientation", "vel": "velocity"}
+SHAPE_KEY = {"length": "l", "width": "w", "center": "c", "orientation": "o", "radius": "r", "vertices": "v"}
+
+
+def tr_goal(g, t, a):
+    g = dict(g)
+    if "pos" in g:
+        g["pos"] = tr_shape(g["pos"], t, a)
+    if "ori" in g and a != 0:
+        g["ori"] = [float(val(g["ori"][0])) + a, float(val(g["ori"][1])) + a]
+        g["ori_inexact"] = True
+        g.pop("ori_how", None)
+    return g
+
+
+def spec_apply(specs, step):
+    """the goal specs after the step (pure); queries, failing and read-only operations leave them as they are"""
+    op = step["op"]
+    specs = list(specs)
+    if op == "set_list":
+        how = step["how"]
+        if how == "setter_new":
+            return copy.deepcopy(step["goals"])
+        if how == "append":
+            return specs + [copy.deepcopy(step["goal"])]
+        if how == "insert0":
+            return [copy.deepcopy(step["goal"])] + specs
+        if how == "pop":
+            return specs[:step["i"]] + specs[step["i"] + 1:]
+        if how == "reverse":
+            return specs[::-1]
+        if how == "setitem":
+            specs[step["i"]] = copy.deepcopy(step["goal"])
+        return specs
+    if op == "set_attr":
+        g = dict(specs[step["i"]])
+        a = step["attr"]
+        for k in (a + "_how", "ori_inexact" if a == "ori" else None, "lanelets" if a == "pos" else None):
+            if k:
+                g.pop(k, None)
+        if step["val"] is None:
+            g.pop(a, None)
+        else:
+            g[a] = copy.deepcopy(step["val"])
+        if g.get("cls") and g["cls"] not in goal_classes(g):
+            g.pop("cls")            # an attribute the class has no field for was attached: rebuilt as a CustomState
+        specs[step["i"]] = g
+        return specs
+    if op == "pos_edit":
+        g = copy.deepcopy(specs[step["i"]])
+        sp = g["pos"] if step.get("j") is None else g["pos"]["s"][step["j"]]
+        sp[SHAPE_KEY[step["attr"]]] = copy.deepcopy(step["val"])
+        for k in {"center": ["dc", "ints"], "orientation": ["do"], "vertices": ["closed", "rev", "ints"], "length": ["ints"],
+                  "width": ["ints"], "radius": ["ints"]}[step["attr"]]:
+            sp.pop(k, None)
+        specs[step["i"]] = g
+        return specs
+    if op == "tr":
+        return [tr_goal(g, step["t"], step["a"]) for g in specs]
+    return specs
+
+
+# ------------------------------------------------------------------------------------------------ the world of one case
+
+def _initial_state():
+    import numpy as np
+    from commonroad.scenario.state import InitialState
+    return InitialState(time_step=0, position=np.array([0.0, 0.0]), velocity=0.0, orientation=0.0, yaw_rate=0.0, slip_angle=0.0)
+
+
+class World:
+    def __init__(self, case):
+        from commonroad.common.util import Interval
+        from commonroad.planning.goal import GoalRegion
+        from commonroad.planning.planning_problem import PlanningProblem, PlanningProblemSet
+        from commonroad.scenario.state import CustomState
+        self.lan_mode = case.get("lan_mode", "auto")
+        self.specs = copy.deepcopy(case["goals"])
+        self.G = build_goal(self.specs, self.lan_mode)
+        pp = case.get("pp") or {}
+        self.pid = pp.get("id", 1)
+        self.PP = PlanningProblem(self.pid, _initial_state(), self.G)
+        decoy = PlanningProblem(self.pid + 1, _initial_state(), GoalRegion([CustomState(time_step=Interval(0, 1))]))
+        how = pp.get("set", "ctor")
+        if how == "add":
+            self.PPS = PlanningProblemSet()
+            self.PPS.add_planning_problem(decoy)
+            self.PPS.add_planning_problem(self.PP)
+        else:
+            self.PPS = PlanningProblemSet([self.PP, decoy] if how == "ctor_rev" else [decoy, self.PP])
+        self.snap = None
+        self.moved = None       # (goals as stored before a pure translation, translation): the model moves them itself
+        self.stale = None       # name of the shape setter after which a goal shape answers from an outdated cache
+        self.edited = False
+        self.failed_op = False
+
+    def goal(self, via):
+        if via == "pp":
+            return self.PP.goal
+        if via == "pps":
+            return self.PPS.find_planning_problem_by_id(self.pid).goal
+        return self.G
+
+    def problem(self, via):
+        return self.PPS.find_planning_problem_by_id(self.pid) if via == "pps" else self.PP
+
+    def snapshot(self):
+        if self.snap is None:
+            try:
+                self.snap = wire_goals(self.G)
+            except (AttributeError, TypeError):
+                self.snap = False       # the goal region holds something that is no goal state (left behind by a rejected edit)
+        return self.snap
+
+    def dirty(self):
+        self.snap, self.moved, self.edited = None, None, True
+
+    def replace_goal(self, G):
+        self.G = G
+        self.PP.goal = G
+        self.stale = None
+        self.dirty()
+
+
+def shape_is_stale(shape):
+    """the library's own consistency: does the shape answer from the parameters it shows? (Rectangle caches its vertices and its
+    polygon; Polygon keeps the polygon of its first vertices) — decides whether a wrong answer after a shape setter is the known
+    stale-cache finding, and keeps the model (which is given the shown parameters) out of it"""
+    import numpy as np
+    from commonroad.geometry.shape import Polygon, Rectangle, ShapeGroup
+    if isinstance(shape, ShapeGroup):
+        return any(shape_is_stale(s) for s in shape.shapes)
+    if isinstance(shape, Rectangle):
+        fresh = Rectangle(shape.length, shape.width, shape.center, shape.orientation)
+        return not (np.array_equal(fresh.vertices, shape.vertices)
+                    and np.allclose(np.array(shape.shapely_object.exterior.coords), fresh.vertices, atol=0, rtol=0))
+    if isinstance(shape, Polygon):
+        b = shape.shapely_object.bounds
+        vs = np.asarray(shape.vertices, dtype=float)
+        return not (b[0] == vs[:, 0].min() and b[1] == vs[:, 1].min() and b[2] == vs[:, 0].max() and b[3] == vs[:, 1].max())
+    return False
+
+
+# ------------------------------------------------------------------------------------------------ running the steps
+
+def _ans(r):
+    return {"ok": bool(r[1])} if r[0] == "ok" else {"err": r[1]}
+
+
+def do_query(ctx, W, st, via, sub, times=1, sobj=None):
+    """one is_reached observation: correspondence with the model + oracle.  Returns (impl answer, wanted answer | None)"""
+    st = norm_state(st)
+    tag_state(ctx, st)
+    ctx.tag("via/" + via)
+    if sobj is None:
+        sobj = build_state(st)
+    goal = W.goal(via)
+    want, amb, res = oracle_state(W.specs, st)
+    impl, r = None, None
+    for n in range(times):
+        r = call(goal.is_reached, sobj)
+        cur = _ans(r)
+        if impl is not None and cur != impl:
+            ctx.fail("C08/GoalRegion.is_reached/second-answer-differs",
+                     f"is_reached answered {impl} and then {cur} for the same state object {st}", sub)
+        if impl is None:
+            impl = cur
+    if times > 1:
+        ctx.tag("hist/requery")
+    if W.edited:
+        ctx.tag("hist/query-after-edit")
+    if W.failed_op:
+        ctx.tag("hist/fail-then-query")
+    if W.stale:
+        ctx.tag("corr/stale-shape-skipped")
+    elif pos_ambiguous(W.specs, st):
+        ctx.tag("corr/position-ambiguous-skipped")     # shapely (floats) vs the exact model within the band of a boundary
+    elif "?" in res and _is32(*[st.get(k) for k in ("v", "th", "vy")]):
+        ctx.tag("corr/float32-band-skipped")           # numpy subtracts / compares float32 values in single precision
+    elif W.snapshot() is False:
+        ctx.tag("corr/unreadable-goal-skipped")
+    elif getattr(ctx, "use_model", True):
+        tau, eps = _tau_eps()
+        s, hyp, at2 = wire_state(st)
+        args = {"tau": rat(tau), "eps": rat(eps), "goals": W.snapshot(), "state": s, "hyp": hyp, "at2": at2}
+        ctx.compare(sub, impl, ctx.driver.ask("C08", "is_reached", args), "GoalRegion.is_reached vs CR.Goal.isReached")
+        if W.moved is not None:
+            args = dict(args, goals=W.moved[0], t=[rat(W.moved[1][0]), rat(W.moved[1][1])])
+            ctx.compare(sub, impl, ctx.driver.ask("C08", "is_reached_moved", args),
+                        "GoalRegion.translate_rotate(t, 0) + is_reached vs CR.Goal.isReachedMoved")
+            ctx.tag("corr/moved")
+    if amb:
+        ctx.excluded += 1
+        return impl, None
+    if "err" in want:
+        ctx.tag("reached/error")
+        n = len(res)
+        bad = [i for i, x in enumerate(res) if x == "E"]
+        if n >= 2:
+            ctx.tag("err/first" if bad[0] == 0 else ("err/last" if bad[0] == n - 1 else "err/middle"))
+        return impl, want          # the property does not fix the behaviour for inadmissible inputs (the model does: ValueError)
+    ctx.tag("reached/true" if want["ok"] else "reached/false")
+    if impl != want:
+        if W.stale and _ans(call(build_goal(W.specs, W.lan_mode).is_reached, build_state(st))) == want:
+            ctx.fail(f"C08/GoalRegion.is_reached/stale-after/{W.stale}",
+                     f"is_reached = {impl} but the goal as edited through {W.stale} gives {want['ok']} (a goal region built afresh "
+                     f"from the same data answers correctly) for state {st}", sub)
+        elif "err" in impl:
+            ctx.fail(f"C08/GoalRegion.is_reached/raises-{impl['err']}", f"is_reached raised {r[2]} for state {st}", sub)
+        else:
+            ctx.fail("C08/GoalRegion.is_reached/wrong-decision",
+                     f"is_reached = {impl.get('ok')} but the goal definition gives {want['ok']} for state {st}", sub)
+    return impl, want
+
+
+class _Holder:  # a duck-typed trajectory: goal_reached reads nothing but state_list
+    def __init__(self, sl):
+        self.state_list = sl
+
+
+def do_traj(ctx, W, step, sub):
+    from commonroad.scenario.trajectory import Trajectory
+    sts = [norm_state(s) for s in step["sts"]]
+    via = step.get("via", "pp")
+    objs = [build_state(s) for s in sts]
+    traj = _Holder(objs)
+    if step.get("holder") == "real" and objs:
+        t = call(Trajectory, val(sts[0]["t"]), objs)
+        if t[0] == "ok":
+            traj = t[1]
+            ctx.tag("traj/real")
+    first = call(W.problem(via).goal_reached, traj) if step.get("fresh") else None
+    answers = [do_query(ctx, W, s, "goal", sub, sobj=o) for s, o in zip(sts, objs)]
+    r = first if first is not None else call(W.problem(via).goal_reached, traj)
+    ctx.tag("via/" + via)
+    if step.get("fresh"):
+        ctx.tag("traj/fresh")
+    if not sts:
+        ctx.tag("traj/empty")
+    impl = {"ok": [bool(r[1][0]), int(r[1][1])]} if r[0] == "ok" else {"err": r[1]}
+    if W.stale:
         return
+    if getattr(ctx, "use_model", True):
+        ctx.compare(sub, impl, ctx.driver.ask("C08", "goal_reached", {"answers": [a for a, _ in answers]}),
+                    "PlanningProblem.goal_reached vs CR.Goal.goalReached")
+    wants = [w for _, w in answers]
+    if any(w is not None and "err" in w for w in wants):
+        ctx.tag("traj/with-error")
+        return
+    if any(w is None for w in wants):
+        return
+    hit = [i for i, w in enumerate(wants) if w["ok"]]
+    ctx.tag("traj/reached" if hit else "traj/not-reached")
+    if len(sts) >= 2 and hit == [0]:
+        ctx.tag("traj/first-only")
+    if len(sts) >= 2 and hit == [len(sts) - 1]:
+        ctx.tag("traj/last-only")
+    if len(hit) >= 2:
+        ctx.tag("traj/several")
+    if "err" in impl:
+        ctx.fail(f"C08/PlanningProblem.goal_reached/raises-{impl['err']}", f"{r[2]}", sub)
+        return
+    b, i = impl["ok"]
+    if b != bool(hit):
+        ctx.fail("C08/PlanningProblem.goal_reached/wrong-success", f"reported {b}, states reaching the goal: {hit}", sub)
+    elif b and i not in hit:
+        ctx.fail("C08/PlanningProblem.goal_reached/wrong-index", f"index {i} does not reach the goal (reaching: {hit})", sub)
+    elif not b and i != -1:
+        ctx.fail("C08/PlanningProblem.goal_reached/wrong-index", f"failure reported with index {i}", sub)
+
+
+def _goal_shape(W, step):
+    sh = W.G.state_list[step["i"]].position
+    return sh if step.get("j") is None else sh.shapes[step["j"]]
+
+
+def do_edit(ctx, W, step):
+    """apply a mutating / failing / read-only step to the objects; returns False when the history cannot be continued"""
+    import numpy as np
+    import commonroad.scenario.state as S
+    from commonroad.common.util import Interval
+    op = step["op"]
+    G = W.G
+    if op == "set_list":
+        how = step["how"]
+        ctx.tag("hist/set_list/" + how)
+        if how == "setter_new":
+            G.state_list = [build_goal_state(g) for g in step["goals"]]
+        elif how == "setter_same":
+            G.state_list = G.state_list
+        elif how == "setter_copy":
+            G.state_list = list(G.state_list)
+        elif how == "append":
+            G.state_list.append(build_goal_state(step["goal"]))
+        elif how == "insert0":
+            G.state_list.insert(0, build_goal_state(step["goal"]))
+        elif how == "pop":
+            G.state_list.pop(step["i"])
+        elif how == "reverse":
+            G.state_list.reverse()
+        elif how == "setitem":
+            G.state_list[step["i"]] = build_goal_state(step["goal"])
+        W.dirty()
+    elif op == "set_attr":
+        gs, a, v = G.state_list[step["i"]], step["attr"], step["val"]
+        if step.get("how") == "ends":
+            ctx.tag("hist/set_attr/ends")
+            iv = getattr(gs, ATTR_NAME[a])
+            lo, hi = num(v[0]), num(v[1])
+            if lo <= iv.end:
+                iv.start, iv.end = lo, hi
+            else:
+                iv.end, iv.start = hi, lo
+        else:
+            ctx.tag("hist/set_attr/remove" if v is None else "hist/set_attr/assign")
+            new = None if v is None else (build_shape_x(v) if a == "pos" else build_angle(v, None) if a == "ori" else build_interval(v, None))
+            setattr(gs, ATTR_NAME[a], new)
+        W.dirty()
+    elif op == "pos_edit":
+        ctx.tag("hist/pos_edit")
+        sh, v = _goal_shape(W, step), step["val"]
+        setattr(sh, step["attr"], np.array(v, dtype=float) if step["attr"] in ("center", "vertices") else v)
+        W.dirty()
+        if W.stale is None and shape_is_stale(G.state_list[step["i"]].position):
+            W.stale = f"{type(sh).__name__}.{step['attr']}"
+            ctx.tag("hist/pos_edit/stale")
+    elif op == "tr":
+        t, a = step["t"], step["a"]
+        ctx.tag("hist/tr/translation" if a == 0 else "hist/tr/rotation", "hist/tr/level/" + step["level"])
+        pre = (W.snapshot() or None) if a == 0 and not W.stale else None
+        target = {"goal": G, "pp": W.PP, "pps": W.PPS}[step["level"]]
+        target.translate_rotate(np.array(t, dtype=int if step.get("int_t") else float), a)
+        was_stale = W.stale
+        W.dirty()
+        W.stale = was_stale if was_stale and any(shape_is_stale(g.position) for g in G.state_list
+                                                 if getattr(g, "position", None) is not None) else None
+        if pre is not None:
+            W.moved = (pre, t)
+    elif op == "set_goal":
+        ctx.tag("hist/set_goal")
+        W.replace_goal(build_goal(W.specs, W.lan_mode))
+    elif op == "swap":
+        ctx.tag("hist/swap/" + step["how"])
+        stale = W.stale
+        W.replace_goal(copy.deepcopy(G) if step["how"] == "deepcopy" else pickle.loads(pickle.dumps(G)))
+        W.stale = stale
+    elif op == "fail":
+        what = step["what"]
+        ctx.tag("hist/fail/" + what)
+        if what == "bad_list":
+            r = call(setattr, G, "state_list", list(G.state_list) + [S.CustomState(time_step=Interval(0, 1), acceleration=Interval(0, 1))])
+        elif what == "int_time":
+            r = call(setattr, G, "state_list", [S.CustomState(time_step=3)])
+        elif what == "bad_angle":
+            r = call(G.translate_rotate, np.array([1.0, 2.0]), 7.0)
+            if not W.specs:
+                r = ("err",)
+        else:
+            iv = getattr(G.state_list[step["i"]], ATTR_NAME[step["attr"]])
+            r = call(setattr, iv, "start", iv.end + 1) if step.get("end") != "end" else call(setattr, iv, "end", iv.start - 1)
+        W.failed_op = True
+        if r[0] == "ok":
+            ctx.tag("hist/abandoned")        # the operation was expected to be rejected: the specs no longer describe the objects
+            return False
+    elif op == "ro":
+        what = step["what"]
+        ctx.tag("hist/ro/" + what)
+        if what == "hash":
+            call(hash, G), call(hash, W.PP), call(hash, W.PPS)
+        elif what == "eq":
+            call(lambda: (G == copy.deepcopy(G), G == 5, W.PP == copy.deepcopy(W.PP), W.PPS == copy.deepcopy(W.PPS)))
+        elif what == "str":
+            call(lambda: [(str(g), repr(g), str(g.time_step)) for g in G.state_list])
+        elif what == "attrs":
+            call(lambda: [(g.attributes, g.used_attributes, g.is_uncertain_position) for g in G.state_list])
+        elif what == "lan":
+            call(lambda: G.lanelets_of_goal_position)
+            call(setattr, G, "lanelets_of_goal_position", {0: [1]})
+    if W.stale and not any(shape_is_stale(g.position) for g in W.G.state_list if getattr(g, "position", None) is not None):
+        W.stale = None
+    return True
+
+
+# ------------------------------------------------------------------------------------------------ goal regions that come out of a file
+# {"kind": "file", "fmt": "xml" | "pb", "lanelets": [[id, x0, y0, length, width], ...], "goals": [...], "pp": {"id"}, "steps": [...]}
+# a goal state with "lanelets": [ids] is written as lanelet references; the reader rebuilds its position from the lanelet
+# polygons of the network it has just read.  The oracle's position is the union of the strips the case itself defines.
+
+def strip_spec(l):
+    _, x0, y0, length, w = l
+    return {"k": "poly", "v": [[x0, y0 - w / 2], [x0 + length, y0 - w / 2], [x0 + length, y0 + w / 2], [x0, y0 + w / 2]]}
+
+
+def file_specs(case):
+    by_id = {l[0]: l for l in case["lanelets"]}
+    out = []
+    for g in case["goals"]:
+        g = dict(g)
+        if "lanelets" in g:
+            g["pos"] = {"k": "group", "s": [strip_spec(by_id[i]) for i in g["lanelets"]]}
+        out.append(g)
+    return out
+
+
+class FileWorld(World):
+    def __init__(self, case, tmpdir):
+        import numpy as np
+        from commonroad.common.file_reader import CommonRoadFileReader
+        from commonroad.common.file_writer import CommonRoadFileWriter, OverwriteExistingFile
+        from commonroad.common.util import FileFormat
+        from commonroad.planning.goal import GoalRegion
+        from commonroad.planning.planning_problem import PlanningProblem, PlanningProblemSet
+        from commonroad.scenario.lanelet import Lanelet, LaneletNetwork
+        from commonroad.scenario.scenario import Scenario, ScenarioID, Tag
+        sc = Scenario(0.1, ScenarioID.from_benchmark_id("ZAM_Goal-1_1_T-1", "2020a"))
+        lanelets = []
+        for (i, x0, y0, length, w) in case["lanelets"]:
+            xs = np.array([x0, x0 + length / 2, x0 + length], dtype=float)
+            lanelets.append(Lanelet(np.stack([xs, np.full(3, y0 + w / 2)], 1), np.stack([xs, np.full(3, float(y0))], 1),
+                                    np.stack([xs, np.full(3, y0 - w / 2)], 1), i))
+        sc.add_objects(LaneletNetwork.create_from_lanelet_list(lanelets))
+        self.lan_mode = "auto"
+        self.specs = file_specs(case)
+        G = GoalRegion([build_goal_state(g) for g in self.specs],
+                       {i: list(g["lanelets"]) for i, g in enumerate(case["goals"]) if "lanelets" in g} or None)
+        self.pid = (case.get("pp") or {}).get("id", 1)
+        pps = PlanningProblemSet([PlanningProblem(self.pid, _initial_state(), G)])
+        fmt = case.get("fmt", "xml")
+        path = os.path.join(tmpdir, "c08_goal." + fmt)
+        ff = FileFormat.PROTOBUF if fmt == "pb" else FileFormat.XML
+        from commonroad.scenario.scenario import Location
+        CommonRoadFileWriter(sc, pps, "a", "b", "c", {Tag.URBAN}, Location(),
+                             file_format=ff).write_to_file(path, OverwriteExistingFile.ALWAYS)
+        try:
+            _, self.PPS = CommonRoadFileReader(path, file_format=ff).open()
+        finally:
+            os.remove(path)             # (a second write to the same path makes the writer print a note)
+        self.PP = self.PPS.find_planning_problem_by_id(self.pid)
+        self.G = self.PP.goal
+        self.snap = self.moved = self.stale = None
+        self.edited = self.failed_op = False
+
+
+def gen_file_case(ctx):
+    r = ctx.rng
+    n = r.randint(1, 4)
+    ids = r.sample(range(1, 60), n)
+    lanelets, x, y = [], r.randint(-10, 10) * 1.0, r.randint(-10, 10) * 1.0
+    for i in ids:
+        length, w = r.randint(8, 160) / 16.0 * 2, r.randint(8, 64) / 16.0 * 2
+        lanelets.append([i, x, y, length, w])
+        if r.random() < 0.5:
+            x += length                      # successor: shares the end edge
+        else:
+            y += r.choice([w, w + 1.0, -w])  # neighbour (touching or with a gap)
+    goals = []
+    for _ in range(r.choice([1, 1, 2])):
+        a, b = sorted([r.randint(0, 12), r.randint(0, 12)])
+        g = {"time": [a, b]}
+        roll = r.random()
+        if roll < 0.7:
+            g["lanelets"] = r.sample(ids, r.randint(1, n))
+        elif roll < 0.9:
+            g["pos"] = geom.gen_shape(r, kinds=("rect", "circ", "poly"), exact=True)
+        if r.random() < 0.5:
+            g["ori"] = r.choice([[-0.1, 3.0415], [3.0, 3.3], [-3.1416, 0.8584], [1.5, 5.5], [0.0, 0.0]])
+        if r.random() < 0.5:
+            g["vel"] = sorted([r.randint(0, 400) / 16.0, r.randint(0, 400) / 16.0])
+        goals.append(g)
+    case = {"kind": "file", "fmt": r.choice(["xml", "xml", "pb"]), "lanelets": lanelets, "goals": goals,
+            "pp": {"id": r.choice([1, 7, 300])}}
+    specs = file_specs(case)
+    case["steps"] = [gen_query(r, specs, via=r.choice(["goal", "pps"])) for _ in range(r.randint(1, 3))]
+    if r.random() < 0.3:
+        case["steps"].append(gen_traj(r, specs))
+    return case
+
+
+def upgrade(case):
+    """old format {"kind", "goals", "states"} -> history"""
+    if "steps" in case:
+        return case
+    sts = case["states"]
+    if case.get("kind") == "traj":
+        steps = [{"op": "traj", "sts": sts, "via": "pp"}]
+    else:
+        steps = [{"op": "q", "st": s, "via": "goal"} for s in sts]
+    return {"goals": case["goals"], "steps": steps}
+
+
+def run_case(ctx, case):
+    ctx.case(case)
+    case = upgrade(case)
+    try:
+        W = FileWorld(case, ctx.tmpdir()) if case.get("kind") == "file" else World(case)
+    except Exception as e:  # noqa  constructing (writing, reading) an admissible goal must not fail
+        site = "file-round-trip" if case.get("kind") == "file" else "GoalRegion.__init__"
+        ctx.fail(f"C08/{site}/raises-{type(e).__name__}", f"{e}", dict(case, steps=[]))
+        return
+    goals = case["goals"]
+    ctx.tag("file/" + case["fmt"] if case.get("kind") == "file" else "lan/" + case.get("lan_mode", "auto"))
     if len(goals) > 1:
         ctx.tag("goal/multi")
+    if not goals:
+        ctx.tag("goal/empty-list")
     for g in goals:
-        if "lanelets" in g:
-            ctx.tag("goal/lanelet")
-        if "ori" in g and g["ori"][1] - g["ori"][0] > math.pi:
-            ctx.tag("goal/long-angle")
-    answers_impl, answers_want, any_amb = [], [], False
-    for st in states:
-        ctx.tag("state/" + st["cls"])
-        if any(isinstance(st.get(k), int) for k in ("t", "v", "th")):
-            ctx.tag("int-values")
-        if st["cls"] == "PMState":
-            if st["vx"] < 0 < st["vy"]:
-                ctx.tag("pm/quadrant2")
-            if st["vx"] < 0 and st["vy"] < 0:
-                ctx.tag("pm/quadrant3")
-        sobj = build_state(st)
-        r = call(goal_obj.is_reached, sobj)
-        impl = {"ok": bool(r[1])} if r[0] == "ok" else {"err": r[1]}
-        sub = {"kind": "state", "goals": goals, "states": [st]}
-        pos_amb = "pos" in st and any("pos" in g and geom.point_in_shape(g["pos"], st["pos"])[1] for g in goals)
-        if pos_amb:
-            ctx.tag("corr/position-ambiguous-skipped")     # shapely (floats) vs the exact model within 1e-9 of a boundary
+        tag_goal(ctx, g)
+    for k, step in enumerate(case["steps"]):
+        sub = dict(case, steps=case["steps"][:k + 1])
+        op = step["op"]
+        if op == "q":
+            do_query(ctx, W, step["st"], step.get("via", "goal"), sub, step.get("times", 1))
+        elif op == "traj":
+            do_traj(ctx, W, step, sub)
         else:
-            model = ctx.driver.ask("C08", "is_reached", model_args(goal_obj, goals, st, sobj))
-            ctx.compare(sub, impl, model, "GoalRegion.is_reached vs CR.Goal.isReached")
-        # oracle
-        res = [oracle_one(g, gobj, st) for g, gobj in zip(goals, goal_obj.state_list)]
-        amb = False
-        if "E" in res:
-            want = {"err": "value"}          # documented ValueError: goal constrains an attribute the state lacks
-        elif "T" in res:
-            want = {"ok": True}
-        elif all(x == "F" for x in res):
-            want = {"ok": False}
-        else:
-            want, amb = None, True
-        answers_impl.append(impl)
-        answers_want.append(None if amb else want)
-        if amb:
-            ctx.excluded += 1
-            any_amb = True
-            continue
-        ctx.tag("reached/true" if want.get("ok") else "reached/false")
-        if impl != want:
-            if "err" in impl and "err" not in want:
-                ctx.fail(f"C08/GoalRegion.is_reached/raises-{impl['err']}", f"is_reached raised {r[2]} for state {st}", sub)
-            elif "err" in want:
-                pass    # the property does not fix the behaviour for inadmissible inputs
-            else:
-                ctx.fail("C08/GoalRegion.is_reached/wrong-decision",
-                         f"is_reached = {impl.get('ok')} but the goal definition gives {want['ok']} for state {st}", sub)
-    if case["kind"] == "traj" and not any_amb and all("ok" in a for a in answers_impl):
-        from commonroad.planning.planning_problem import PlanningProblem
-        from commonroad.scenario.state import InitialState
-        from commonroad.scenario.trajectory import Trajectory
-        import numpy as np
-        # Trajectory wants consecutive time steps of one state class: use a duck-typed holder of the state list
-        class _T:  # noqa
-            def __init__(self, sl):
-                self.state_list = sl
-        pp = PlanningProblem(1, InitialState(time_step=0, position=np.array([0.0, 0.0]), velocity=0.0, orientation=0.0,
-                                             yaw_rate=0.0, slip_angle=0.0), goal_obj)
-        r = call(pp.goal_reached, _T([build_state(st) for st in states]))
-        impl = {"ok": [bool(r[1][0]), int(r[1][1])]} if r[0] == "ok" else {"err": r[1]}
-        model = ctx.driver.ask("C08", "goal_reached", {"answers": answers_impl})
-        ctx.compare(case, impl, model, "PlanningProblem.goal_reached vs CR.Goal.goalReached")
-        some = any(a["ok"] for a in answers_want)
-        ctx.tag("traj/reached" if some else "traj/not-reached")
-        if "err" in impl:
-            ctx.fail(f"C08/PlanningProblem.goal_reached/raises-{impl['err']}", f"{r[2]}", case)
-        else:
-            b, i = impl["ok"]
-            if b != some:
-                ctx.fail("C08/PlanningProblem.goal_reached/wrong-success", f"reported {b}, some state reaches: {some}", case)
-            elif b and not (0 <= i < len(states) and answers_want[i]["ok"]):
-                ctx.fail("C08/PlanningProblem.goal_reached/wrong-index", f"index {i} does not reach the goal", case)
-            elif not b and i != -1:
-                ctx.fail("C08/PlanningProblem.goal_reached/wrong-index", f"failure reported with index {i}", case)
+            try:
+                if not do_edit(ctx, W, step):
+                    return
+            except Exception as e:  # noqa  an admissible edit of a goal region must not fail
+                ctx.fail(f"C08/{op}/raises-{type(e).__name__}", f"step {step} raised {type(e).__name__}: {e}", sub)
+                return
+            W.specs = spec_apply(W.specs, step)
 
+
+# ------------------------------------------------------------------------------------------------ case generator
+
+def gen_query(r, specs, via=None):
+    st = gen_state(r, specs)
+    q = {"op": "q", "st": st, "via": via or r.choice(["goal", "goal", "pp", "pps"])}
+    if r.random() < 0.15:
+        q["times"] = 2
+    return q
+
+
+def make_real(sts):
+    """states a real Trajectory accepts: one class, one attribute set, natural int time steps"""
+    keys = set.intersection(*[set(k for k in ("pos", "v", "th", "vy") if k in s) for s in sts])
+    t0 = max(0, int(val(sts[0]["t"])))
+    out = []
+    for i, s in enumerate(sts):
+        n = {"cls": s["cls"], "t": t0 + i if i else t0}
+        for k in keys:
+            n[k] = s[k]
+        if "pos" in n and s.get("pos_ty"):
+            n["pos_ty"] = s["pos_ty"]
+        out.append(n)
+    return out
+
+
+def gen_traj(r, specs):
+    roll = r.random()
+    step = {"op": "traj", "via": r.choice(["pp", "pp", "pps"])}
+    if r.random() < 0.3:
+        step["fresh"] = True
+    if roll < 0.06:
+        step["sts"] = []
+        return step
+    real = r.random() < 0.3
+    cls = r.choice(["KSState", "PMState", "STState", "MBState", "InitialState", "ExtendedPMState"]) if real else None
+    n = r.randint(1, 8)
+    pattern = r.choice(["random", "random", "first", "last", "several", "none"])
+    if pattern == "random" or not specs:
+        sts = [gen_state(r, specs, cls, complete=real) for _ in range(n)]
+        if not real and r.random() < 0.7:
+            sts = [s for s in sts if oracle_state(specs, s)[0] != {"err": "value"}] or sts[:1]
+    else:
+        pool = [gen_state(r, specs, cls, complete=True) for _ in range(14)]
+        kinds = {"T": [], "F": []}
+        for s in pool:
+            w = oracle_state(specs, s)[0]
+            if w in ({"ok": True}, {"ok": False}):
+                kinds["T" if w["ok"] else "F"].append(s)
+        T, F_ = kinds["T"], kinds["F"]
+        n = max(n, 2)
+        if not F_ or (pattern != "none" and not T):
+            sts = pool[:n]
+        elif pattern == "first":
+            sts = [r.choice(T)] + [r.choice(F_) for _ in range(n - 1)]
+        elif pattern == "last":
+            sts = [r.choice(F_) for _ in range(n - 1)] + [r.choice(T)]
+        elif pattern == "several":
+            sts = [r.choice(T if r.random() < 0.5 else F_) for _ in range(n - 2)] + [r.choice(T), r.choice(T)]
+            r.shuffle(sts)
+        else:
+            sts = [r.choice(F_) for _ in range(n)]
+        sts = copy.deepcopy(sts)
+    if real:
+        sts = make_real(sts)
+        step["holder"] = "real"
+    step["sts"] = sts
+    return step
+
+
+def grid(r, lim=320):
+    return r.randint(-lim, lim) / 16.0
+
+
+def gen_edit(r, specs):
+    """a mutating / failing / read-only step that is admissible on the current specs"""
+    n = len(specs)
+    kinds = ["set_list"] * 3 + ["tr"] * 4 + ["fail"] * 2 + ["ro"] * 2 + ["set_goal", "swap"]
+    if n:
+        kinds += ["set_attr"] * 4 + ["pos_edit"] * 3
+    op = r.choice(kinds)
+    if op == "set_list":
+        how = r.choice(["setter_new", "setter_new", "setter_same", "setter_copy", "append", "append", "insert0", "reverse"]
+                       + (["pop", "setitem"] if n else []))
+        step = {"op": op, "how": how}
+        if how == "setter_new":
+            step["goals"] = [gen_goal_state(r) for _ in range(r.choice([1, 1, 2, 3]))]
+        elif how in ("append", "insert0", "setitem"):
+            step["goal"] = gen_goal_state(r)
+        if how in ("pop", "setitem"):
+            step["i"] = r.randrange(n)
+        return step
+    if op == "set_attr":
+        i = r.randrange(n)
+        g = specs[i]
+        a = r.choice(["time", "pos", "ori", "vel"])
+        if a == "ori" and g.get("cls") == "PMState":
+            a = "vel"                                   # PMState.orientation is a derived property without a setter
+        step = {"op": op, "i": i, "attr": a}
+        new = {"time": lambda: gen_goal_state(r)["time"], "pos": lambda: gen_shape_x(r), "ori": lambda: gen_ori(r),
+               "vel": lambda: gen_vel(r)}[a]()
+        inside = a != "ori" or (-2 * math.pi <= new[0] and new[1] <= 2 * math.pi)
+        if a in g and a != "pos" and inside and r.random() < 0.45:
+            step.update(how="ends", val=new)
+        elif a in g and a != "time" and r.random() < 0.3:
+            step["val"] = None
+        else:
+            step["val"] = new
+        return step
+    if op == "pos_edit":
+        cands = []
+        for i, g in enumerate(specs):
+            if "pos" in g:
+                if g["pos"]["k"] != "group":
+                    cands.append((i, None, g["pos"]))
+                else:
+                    cands += [(i, j, s) for j, s in enumerate(g["pos"]["s"]) if s["k"] != "group"]
+        if not cands:
+            return gen_edit(r, specs)
+        i, j, sp = r.choice(cands)
+        step = {"op": op, "i": i, "j": j}
+        if sp["k"] == "rect":
+            a = r.choice(["length", "width", "center", "orientation"])
+            v = {"length": r.randint(1, 160) / 16.0, "width": r.randint(1, 96) / 16.0, "center": [grid(r), grid(r)],
+                 "orientation": r.choice([0.0, math.pi / 2, 0.3, -1.2])}[a]
+        elif sp["k"] == "circ":
+            a = r.choice(["radius", "center"])
+            v = r.randint(1, 160) / 16.0 if a == "radius" else [grid(r), grid(r)]
+        else:
+            a, v = "vertices", geom.gen_shape(r, kinds=("poly",))["v"]
+        step.update(attr=a, val=v)
+        return step
+    if op == "tr":
+        a = r.choice([0, 0, 0, 0.0, math.pi / 2, -math.pi / 2, math.pi, 0.3, -1.2, r.uniform(-6.2, 6.2), 1])
+        t = r.choice([[grid(r, 160), grid(r, 160)], [grid(r, 160), grid(r, 160)], [0.0, 0.0], [r.randint(-9, 9), r.randint(-9, 9)]])
+        step = {"op": op, "t": t, "a": a, "level": r.choice(["goal", "goal", "pp", "pps"])}
+        if all(isinstance(x, int) for x in t):
+            step["int_t"] = True
+        return step
+    if op == "fail":
+        what = r.choice(["bad_list", "int_time", "bad_angle"] + (["bad_end", "bad_end"] if n else []))
+        step = {"op": op, "what": what}
+        if what == "bad_end":
+            i = r.randrange(n)
+            step.update(i=i, attr=r.choice(["time"] + (["vel"] if "vel" in specs[i] else [])), end=r.choice(["start", "end"]))
+        return step
+    if op == "ro":
+        return {"op": op, "what": r.choice(["hash", "eq", "str", "attrs", "lan"])}
+    if op == "swap":
+        return {"op": op, "how": r.choice(["deepcopy", "pickle"])}
+    return {"op": op}
+
+
+def gen_case(ctx):
+    r = ctx.rng
+    ngoals = r.choice([1, 1, 2, 2, 3, 4]) if r.random() > 0.02 else 0
+    goals = [gen_goal_state(r) for _ in range(ngoals)]
+    case = {"goals": goals, "lan_mode": r.choice(["auto"] * 5 + ["omitted", "omitted", "none", "empty", "extra"]),
+            "pp": {"id": r.choice([1, 1, 0, 7, 10 ** 6]), "set": r.choice(["ctor", "ctor_rev", "add"])}}
+    roll = r.random()
+    if roll < 0.4:
+        case["steps"] = [gen_query(r, goals)]
+    elif roll < 0.6:
+        case["steps"] = [gen_traj(r, goals)]
+    else:
+        specs, steps = goals, []
+        if r.random() < 0.6:
+            steps.append(gen_query(r, specs))          # fills whatever is computed lazily before the edit
+        for _ in range(r.randint(1, 4)):
+            e = gen_edit(r, specs)
+            steps.append(e)
+            specs = spec_apply(specs, e)
+            if r.random() < 0.7:
+                steps.append(gen_query(r, specs) if r.random() < 0.8 else gen_traj(r, specs))
+        if steps[-1]["op"] not in ("q", "traj"):
+            steps.append(gen_query(r, specs) if r.random() < 0.8 else gen_traj(r, specs))
+        case["steps"] = steps
+    return case
+
+
+# ------------------------------------------------------------------------------------------------ entry points
 
 def run(ctx):
+    check_dimensions()
+    ctx.tag("dimensions/%d" % dimension_count())
     for p in sorted(glob.glob(os.path.join(CORPUS_DIR, "C08", "*.json"))):
         run_case(ctx, json.load(open(p)))
-    for _ in range(ctx.n(2500)):
-        run_case(ctx, gen_case(ctx))
+    for k in range(ctx.n(2500)):
+        run_case(ctx, gen_file_case(ctx) if k % 25 == 7 else gen_case(ctx))
 
 
 search = run
@@ -341,3 +1692,69 @@ search = run
 
 def replay(ctx, case):
     run_case(ctx, case)
+
+
+class _Probe:
+    """oracle-only context for shrinking"""
+    use_model = False
+
+    def __init__(self):
+        self.keys, self.excluded = [], 0
+
+    def case(self, *a, **k):
+        pass
+
+    def tag(self, *a):
+        pass
+
+    def tmpdir(self):
+        import tempfile
+        if not hasattr(self, "_tmp"):
+            self._tmp = tempfile.mkdtemp(prefix="crverif_C08_shrink_")
+        return self._tmp
+
+    def compare(self, *a, **k):
+        return True
+
+    def fail(self, key, what, case, detail=None):
+        self.keys.append(key)
+
+
+def _still(case, key):
+    p = _Probe()
+    try:
+        run_case(p, case)
+    except Exception:  # noqa
+        return False
+    return key in p.keys
+
+
+def shrink(case, key):
+    """drop steps and goal states while the same finding key is reported"""
+    case = upgrade(case)
+    if not _still(case, key):
+        return case
+    steps = case["steps"]
+    k = 0
+    while k < len(steps) - 1:
+        cand = dict(case, steps=steps[:k] + steps[k + 1:])
+        if _still(cand, key):
+            case, steps = cand, cand["steps"]
+        else:
+            k += 1
+    last = steps[-1]
+    if last["op"] == "traj" and len(last["sts"]) > 1:
+        for i in range(len(last["sts"]) - 1, -1, -1):
+            sts = case["steps"][-1]["sts"]
+            cand = dict(case, steps=case["steps"][:-1] + [dict(case["steps"][-1], sts=sts[:i] + sts[i + 1:])])
+            if len(sts) > 1 and _still(cand, key):
+                case = cand
+    if all(s["op"] in ("q", "traj") for s in case["steps"]):
+        i = 0
+        while len(case["goals"]) > 1 and i < len(case["goals"]):
+            cand = dict(case, goals=case["goals"][:i] + case["goals"][i + 1:], lan_mode="omitted")
+            if _still(cand, key):
+                case = cand
+            else:
+                i += 1
+    return case
